@@ -2,6 +2,13 @@ import Ark.Model.Bytes
 import Mathlib.Tactic.Ring
 import Mathlib.Tactic.Linarith
 import Mathlib.Tactic.NormNum
+import Mathlib.Tactic.FieldSimp
+import Mathlib.Tactic.LinearCombination
+import Mathlib.Data.Nat.Prime.Basic
+import Mathlib.RingTheory.Int.Basic
+import Mathlib.Data.Int.ModEq
+import Mathlib.Data.Nat.ModEq
+import Mathlib.Algebra.Field.Basic
 /-
   Ark.Proofs.Bytes — helper lemmas for properties C09 / C10 about the executable model
   `Ark.Model.Bytes` (field-element and curve-point (de)serialisation of arkworks).
@@ -13,7 +20,11 @@ import Mathlib.Tactic.NormNum
 -/
 open Ark
 set_option linter.unusedSimpArgs false
+set_option linter.unusedSectionVars false
 namespace Ark.Bytes
+
+/-- `simp` then `omega` if something is left -/
+local macro "simp_omega" : tactic => `(tactic| first | omega | (simp; done) | (simp; omega))
 
 /-- `k` little-endian bytes of `n` -/
 def toB : Nat → Nat → List Nat
@@ -249,7 +260,7 @@ theorem readLimbs_ok (n : Nat) (s : Rd) (h : 8 * n ≤ s.inp.length) :
   induction n generalizing s with
   | zero => exact ⟨[], by simp [readLimbs, M_pure_apply]⟩
   | succ n ih =>
-    obtain ⟨ls, h1, h2, h3, h4⟩ := ih ⟨s.inp.drop 8, s.used + 8⟩ (by simp; omega)
+    obtain ⟨ls, h1, h2, h3, h4⟩ := ih ⟨s.inp.drop 8, s.used + 8⟩ (by simp_omega)
     refine ⟨s.inp.take 8 :: ls, ?_, by simp [h2], ?_, ?_⟩
     · simp only [readLimbs]
       rw [M_bind_ok (readExact_ok 8 s (by omega)), M_bind_ok h1, M_pure_apply]
@@ -257,7 +268,7 @@ theorem readLimbs_ok (n : Nat) (s : Rd) (h : 8 * n ≤ s.inp.length) :
       rw [show 8 * (n + 1) = 8 + 8 * n by omega, Nat.add_assoc]
     · intro l hl
       rcases List.mem_cons.mp hl with rfl | hl
-      · simp; omega
+      · simp_omega
       · exact h3 l hl
     · simp only [List.flatten_cons, h4]
       rw [show 8 * (n + 1) = 8 + 8 * n by omega, List.take_add]
@@ -271,7 +282,7 @@ theorem readLimbs_short (n : Nat) (s : Rd) (h : s.inp.length < 8 * n) :
     by_cases h8 : s.inp.length < 8
     · rw [M_bind_err (readExact_short 8 s h8)]
     · rw [M_bind_ok (readExact_ok 8 s (by omega)),
-        M_bind_err (ih ⟨s.inp.drop 8, s.used + 8⟩ (by simp; omega))]
+        M_bind_err (ih ⟨s.inp.drop 8, s.used + 8⟩ (by simp_omega))]
       simp only [List.length_drop]
       congr 2; omega
 
@@ -394,17 +405,17 @@ theorem fpSer_char {c : FpCfg} (h : WFc c) (Fl : Type) [Flags Fl] (hf : bitSize 
   · subst hc
     rw [if_pos rfl, show 8 * (n + 1) + 1 - 1 = 8 * (n + 1) by omega, SerBuf.get_last]
     simp only [SerBuf.set_last]
-    rw [SerBuf.writeUpTo_eq _ _ _ _ _ (by omega) hi (by simp; omega) (by omega)]
+    rw [SerBuf.writeUpTo_eq _ _ _ _ _ (by omega) hi (by simp_omega) (by omega)]
     simp only [Res.ofOutcome, Nat.add_sub_cancel]
     rw [show min 8 (8 * (n + 1) + 1 - 8 * n) = 8 by omega, if_pos (by omega), flatten_le8_toLimbs,
       List.take_of_length_le (by simp [toB_length]), show 8 * (n + 1) = 8 * n + 8 by omega, toB_add]
   · rw [if_neg hc]
-    obtain ⟨j, hj, hj8⟩ : ∃ j, S - 1 = 8 * (n + 1 - 1) + j ∧ j < 8 := ⟨S - 1 - 8 * n, by simp; omega, by omega⟩
+    obtain ⟨j, hj, hj8⟩ : ∃ j, S - 1 = 8 * (n + 1 - 1) + j ∧ j < 8 := ⟨S - 1 - 8 * n, by simp_omega, by omega⟩
     rw [hj, SerBuf.get_ll _ _ _ _ _ (by omega) hi (by simp [toB_length]; exact hj8) hj8]
     simp only
     rw [SerBuf.set_ll _ _ _ _ _ _ (by omega) hi hj8]
     simp only
-    rw [SerBuf.writeUpTo_eq _ _ _ _ _ (by omega) hi (by simp; omega) (by omega)]
+    rw [SerBuf.writeUpTo_eq _ _ _ _ _ (by omega) hi (by simp_omega) (by omega)]
     simp only [Res.ofOutcome, Nat.add_sub_cancel]
     rw [show min 8 (S - 8 * n) = j + 1 by simp at hj; omega, if_neg (by omega), flatten_le8_toLimbs,
       take_set_succ _ _ _ (by simp [toB_length]; exact hj8), toB_take _ _ _ (by omega),
@@ -544,7 +555,7 @@ theorem fpDe_char {c : FpCfg} (h : WFc c) (Fl : Type) [Flags Fl] (hf : bitSize F
     subst hc
     obtain ⟨first, hf2, hf3, hf4, hrd⟩ := SerBuf.readExactUpTo_ok_extra n s (by omega)
     have e1 : 8 * (n + 1) + 1 - 1 = 8 * (n + 1) := by omega
-    have e2 : decide (8 * (n + 1) + 1 > (n + 1) * 8) = true := by simp; omega
+    have e2 : decide (8 * (n + 1) + 1 > (n + 1) * 8) = true := by simp_omega
     have e3 : (8 * (n + 1) + 1 > (n + 1) * 8) := by omega
     have hll : (List.take 8 (List.drop (8 * n) s.inp)).length = 8 := by
       simp only [List.length_take, List.length_drop]; omega
@@ -570,7 +581,7 @@ theorem fpDe_char {c : FpCfg} (h : WFc c) (Fl : Type) [Flags Fl] (hf : bitSize F
     obtain ⟨j, hj, hj8⟩ : ∃ j, S = 8 * n + j + 1 ∧ j < 8 := ⟨S - 1 - 8 * n, by omega, by omega⟩
     subst hj
     have e1 : 8 * n + j + 1 - 1 = 8 * (n + 1 - 1) + j := by simp
-    have e2 : decide (8 * n + j + 1 > (n + 1) * 8) = false := by simp; omega
+    have e2 : decide (8 * n + j + 1 > (n + 1) * 8) = false := by simp_omega
     have e3 : ¬ (8 * n + j + 1 > (n + 1) * 8) := by omega
     have e5 : 8 * n + j + 1 - 8 * n = j + 1 := by omega
     have hP : (List.take j (List.drop (8 * n) s.inp)).length = j := by
@@ -584,7 +595,7 @@ theorem fpDe_char {c : FpCfg} (h : WFc c) (Fl : Type) [Flags Fl] (hf : bitSize F
     have hZ0 : leVal Z = 0 := by rw [← hZd]; exact leVal_replicate_zero _
     have hget : ∀ w lst, SerBuf.get (n + 1) ⟨first ++ [P ++ [w] ++ Z], lst⟩ (8 * (n + 1 - 1) + j) = .ok w := by
       intro w lst
-      rw [SerBuf.get_ll _ _ _ _ _ (by omega) hi (by simp; omega) hj8]
+      rw [SerBuf.get_ll _ _ _ _ _ (by omega) hi (by simp_omega) hj8]
       rw [← hP, getD_mid]
     have hset : ∀ w w' lst, SerBuf.set (n + 1) ⟨first ++ [P ++ [w] ++ Z], lst⟩ (8 * (n + 1 - 1) + j) w' =
         .ok ⟨first ++ [P ++ [w'] ++ Z], lst⟩ := by
@@ -599,7 +610,7 @@ theorem fpDe_char {c : FpCfg} (h : WFc c) (Fl : Type) [Flags Fl] (hf : bitSize F
       simp only [Option.map, hget, hset, liftO, M_pure_bind, e2, Bool.false_and, e3, false_and,
         Bool.false_eq_true, if_false]
       generalize (s.inp.getD (8 * n + j) 0 &&& 255 - Flags.u8Bitmask fl % 256) = v'
-      rw [SerBuf.toBigint_eq _ _ _ hf3 (by simp; omega), hf4]
+      rw [SerBuf.toBigint_eq _ _ _ hf3 (by simp_omega), hf4]
       have e6 : leVal (List.take (8 * n) s.inp ++ (P ++ [v'] ++ Z)) =
           leVal (List.take (8 * n + j) s.inp) + 256 ^ (8 * n + j) * v' := by
         rw [← List.append_assoc, ← List.append_assoc, leVal_append, leVal_append, hZ0, ← hPd,
@@ -784,7 +795,7 @@ theorem fpSer_size {c : FpCfg} (h : WFc c) {Fl : Type} [Flags Fl] {x : Fp c.p} {
   rw [fpSer_char h Fl hf] at hs
   cases hs
   have := (h.size_range Fl hf).1
-  simp [toB_length]; omega
+  first | (simp [toB_length]; done) | (simp [toB_length]; omega)
 
 /-- for a reduced value the byte receiving the flags is the top part of the integer, below `2^(8-f)` -/
 theorem serOld_reduced {c : FpCfg} (h : WFc c) (Fl : Type) [Flags Fl] (hf : bitSize Fl ≤ 8) (x : Nat)
@@ -845,9 +856,9 @@ theorem fpRT {c : FpCfg} (h : WFc c) {Fl : Type} [Flags Fl] (hF : FlagsOK Fl) (x
   have htake : (toB (S - 1) x.val ++ [o ||| Flags.u8Bitmask fl % 256] ++ t).take (S - 1) = toB (S - 1) x.val := by
     rw [List.append_assoc, List.take_left' hpre]
   have hdrop : (toB (S - 1) x.val ++ [o ||| Flags.u8Bitmask fl % 256] ++ t).drop S = t := by
-    rw [List.drop_left' (by simp [hpre]; omega)]
+    rw [List.drop_left' (by first | (simp [hpre]; done) | (simp [hpre]; omega))]
   simp only
-  rw [if_neg (by simp [hpre]; omega), hv, htake, hdrop, Nat.or_comm, hF.from_or fl o ho2]
+  rw [if_neg (by first | (simp [hpre]; done) | (simp [hpre]; omega)), hv, htake, hdrop, Nat.or_comm, hF.from_or fl o ho2]
   simp only
   rw [Nat.or_comm, hm, byte_rt (8 - bitSize Fl) _ o (Nat.sub_le _ _) (hF.mask_lt fl) (hF.mask_top fl) ho2]
   have ho0 : S > c.N * 8 → o = 0 := by
@@ -1160,5 +1171,1527 @@ theorem extDeFlags_reads {c : FpCfg} (h : WFc c) (Fl : Type) [Flags Fl] (t : Tow
     refine Reads.congr (Reads.bind (extDe_reads h t .yes .yes) (fun c0 =>
       Reads.bind (extDe_reads h t .yes .yes) (fun c1 => Reads.bind0 ih (fun ⟨c2, fl⟩ => Reads.pure _)))) ?_
     omega
+
+theorem M_bind_ok_inv {α β : Type} {m : M α} {k : α → M β} {s s' : Rd} {b : β}
+    (h : (m >>= k) s = .ok b s') : ∃ a s1, m s = .ok a s1 ∧ k a s1 = .ok b s' := by
+  rw [M_bind_apply] at h
+  cases h1 : m s with
+  | ok a s1 => rw [h1] at h; exact ⟨a, s1, rfl, h⟩
+  | err e s1 => rw [h1] at h; cases h
+  | panic => rw [h1] at h; cases h
+
+theorem fpDe_RT {c : FpCfg} (h : WFc c) (x : Fp c.p) (hx : x.val < c.p) (bs : List Nat)
+    (hs : fpSerFlags c EmptyFlags x .mk = .ok bs) (cm : Compress) (vd : Validate) (t : List Nat) (u : Nat) :
+    fpDe c cm vd ⟨bs ++ t, u⟩ = .ok x ⟨t, u + bs.length⟩ := by
+  unfold fpDe
+  rw [M_bind_ok (fpRT h emptyFlagsOK x hx .mk bs hs t u)]
+  rfl
+
+/-- round trip through a tower, on an arbitrary reader state (flagged and plain deserialisers) -/
+theorem extRT {c : FpCfg} (h : WFc c) (t : Tower) :
+    (∀ (Fl : Type) [Flags Fl], FlagsOK Fl → ∀ (v : ExtV c.p) (fl : Fl) (bs : List Nat),
+      v.hasShape t → v.reduced → extSerFlags c Fl v fl = .ok bs → ∀ (tl : List Nat) (u : Nat),
+      extDeFlags c Fl t ⟨bs ++ tl, u⟩ = .ok (v, fl) ⟨tl, u + bs.length⟩) ∧
+    (∀ (v : ExtV c.p) (bs : List Nat) (cm : Compress) (vd : Validate),
+      v.hasShape t → v.reduced → extSerFlags c EmptyFlags v .mk = .ok bs → ∀ (tl : List Nat) (u : Nat),
+      extDe c t cm vd ⟨bs ++ tl, u⟩ = .ok v ⟨tl, u + bs.length⟩) := by
+  induction t with
+  | base =>
+    constructor
+    · intro Fl _ hF v fl bs hv hr hs tl u
+      cases v <;> simp only [ExtV.hasShape] at hv
+      simp only [extSerFlags] at hs
+      simp only [extDeFlags]
+      rw [M_bind_ok (fpRT h hF _ hr fl bs hs tl u)]
+      rfl
+    · intro v bs cm vd hv hr hs tl u
+      cases v <;> simp only [ExtV.hasShape] at hv
+      simp only [extSerFlags] at hs
+      simp only [extDe]
+      rw [M_bind_ok (fpDe_RT h _ hr bs hs cm vd tl u)]
+      rfl
+  | quad t ih =>
+    obtain ⟨ih1, ih2⟩ := ih
+    constructor
+    · intro Fl _ hF v fl bs hv hr hs tl u
+      cases v <;> simp only [ExtV.hasShape] at hv
+      simp only [extSerFlags] at hs
+      obtain ⟨a, ha, hs⟩ := Res_bind_ok_inv hs
+      obtain ⟨b, hb, hs⟩ := Res_bind_ok_inv hs
+      cases hs
+      simp only [extDeFlags, List.append_assoc]
+      rw [M_bind_ok (ih2 _ a .yes .yes hv.1 hr.1 ha (b ++ tl) u),
+        M_bind_ok (ih1 Fl hF _ fl b hv.2 hr.2 hb tl (u + a.length))]
+      simp only [M_pure_apply, List.length_append, Nat.add_assoc]
+    · intro v bs cm vd hv hr hs tl u
+      cases v <;> simp only [ExtV.hasShape] at hv
+      simp only [extSerFlags] at hs
+      obtain ⟨a, ha, hs⟩ := Res_bind_ok_inv hs
+      obtain ⟨b, hb, hs⟩ := Res_bind_ok_inv hs
+      cases hs
+      simp only [extDe, List.append_assoc]
+      rw [M_bind_ok (ih2 _ a cm vd hv.1 hr.1 ha (b ++ tl) u),
+        M_bind_ok (ih2 _ b cm vd hv.2 hr.2 hb tl (u + a.length))]
+      simp only [M_pure_apply, List.length_append, Nat.add_assoc]
+  | cubic t ih =>
+    obtain ⟨ih1, ih2⟩ := ih
+    constructor
+    · intro Fl _ hF v fl bs hv hr hs tl u
+      cases v <;> simp only [ExtV.hasShape] at hv
+      simp only [extSerFlags] at hs
+      obtain ⟨a, ha, hs⟩ := Res_bind_ok_inv hs
+      obtain ⟨b, hb, hs⟩ := Res_bind_ok_inv hs
+      obtain ⟨d, hd, hs⟩ := Res_bind_ok_inv hs
+      cases hs
+      simp only [extDeFlags, List.append_assoc]
+      rw [M_bind_ok (ih2 _ a .yes .yes hv.1 hr.1 ha (b ++ (d ++ tl)) u),
+        M_bind_ok (ih2 _ b .yes .yes hv.2.1 hr.2.1 hb (d ++ tl) (u + a.length)),
+        M_bind_ok (ih1 Fl hF _ fl d hv.2.2 hr.2.2 hd tl (u + a.length + b.length))]
+      simp only [M_pure_apply, List.length_append, Nat.add_assoc]
+    · intro v bs cm vd hv hr hs tl u
+      cases v <;> simp only [ExtV.hasShape] at hv
+      simp only [extSerFlags] at hs
+      obtain ⟨a, ha, hs⟩ := Res_bind_ok_inv hs
+      obtain ⟨b, hb, hs⟩ := Res_bind_ok_inv hs
+      obtain ⟨d, hd, hs⟩ := Res_bind_ok_inv hs
+      cases hs
+      simp only [extDe, List.append_assoc]
+      rw [M_bind_ok (ih2 _ a cm vd hv.1 hr.1 ha (b ++ (d ++ tl)) u),
+        M_bind_ok (ih2 _ b cm vd hv.2.1 hr.2.1 hb (d ++ tl) (u + a.length)),
+        M_bind_ok (ih2 _ d cm vd hv.2.2 hr.2.2 hd tl (u + a.length + b.length))]
+      simp only [M_pure_apply, List.length_append, Nat.add_assoc]
+
+theorem fpDe_uniq {c : FpCfg} (h : WFc c) {cm : Compress} {vd : Validate} {s s' : Rd}
+    (hb : ∀ b ∈ s.inp, b < 256) {x : Fp c.p} (hd : fpDe c cm vd s = .ok x s') :
+    x.val < c.p ∧ fpSerFlags c EmptyFlags x .mk = .ok (s.inp.take (fpSizeFlags c EmptyFlags)) := by
+  unfold fpDe at hd
+  obtain ⟨⟨x', fl⟩, s1, h1, h2⟩ := M_bind_ok_inv hd
+  cases h2
+  cases fl
+  exact ⟨fpDe_ok_lt h h1, fpUniq h emptyFlagsOK.bits_le emptyFlagsOK.sub hb h1⟩
+
+theorem mem_drop_lt {l : List Nat} (hb : ∀ b ∈ l, b < 256) (k : Nat) : ∀ b ∈ l.drop k, b < 256 :=
+  fun b hm => hb b (List.mem_of_mem_drop hm)
+
+/-- uniqueness through a tower: an accepted byte string is the serialisation of the (well-shaped,
+    reduced) result -/
+theorem extUniq {c : FpCfg} (h : WFc c) (t : Tower) :
+    (∀ (Fl : Type) [Flags Fl], bitSize Fl ≤ 8 → FlagsSub Fl → ∀ (s s' : Rd) (v : ExtV c.p) (fl : Fl),
+      (∀ b ∈ s.inp, b < 256) → extDeFlags c Fl t s = .ok (v, fl) s' →
+      v.hasShape t ∧ v.reduced ∧ extSerFlags c Fl v fl = .ok (s.inp.take (extSizeFlags c Fl t))) ∧
+    (∀ (cm : Compress) (vd : Validate) (s s' : Rd) (v : ExtV c.p),
+      (∀ b ∈ s.inp, b < 256) → extDe c t cm vd s = .ok v s' →
+      v.hasShape t ∧ v.reduced ∧
+        extSerFlags c EmptyFlags v .mk = .ok (s.inp.take (extSizeFlags c EmptyFlags t))) := by
+  induction t with
+  | base =>
+    constructor
+    · intro Fl _ hf hsub s s' v fl hb hd
+      simp only [extDeFlags] at hd
+      obtain ⟨⟨x, fl'⟩, s1, h1, h2⟩ := M_bind_ok_inv hd
+      cases h2
+      exact ⟨trivial, fpDe_ok_lt h h1, by simp only [extSerFlags, extSizeFlags]; exact fpUniq h hf hsub hb h1⟩
+    · intro cm vd s s' v hb hd
+      simp only [extDe] at hd
+      obtain ⟨x, s1, h1, h2⟩ := M_bind_ok_inv hd
+      cases h2
+      obtain ⟨e1, e2⟩ := fpDe_uniq h hb h1
+      exact ⟨trivial, e1, by simp only [extSerFlags, extSizeFlags]; exact e2⟩
+  | quad t ih =>
+    obtain ⟨ih1, ih2⟩ := ih
+    constructor
+    · intro Fl _ hf hsub s s' v fl hb hd
+      simp only [extDeFlags] at hd
+      obtain ⟨c0, s1, h1, hd⟩ := M_bind_ok_inv hd
+      obtain ⟨⟨c1, fl'⟩, s2, h2, hd⟩ := M_bind_ok_inv hd
+      cases hd
+      obtain ⟨-, rfl⟩ := (extDe_reads h t .yes .yes).ok_used _ _ _ h1
+      obtain ⟨a1, a2, a3⟩ := ih2 _ _ _ _ _ hb h1
+      obtain ⟨b1, b2, b3⟩ := ih1 Fl hf hsub _ _ _ _ (mem_drop_lt hb _) h2
+      refine ⟨⟨a1, b1⟩, ⟨a2, b2⟩, ?_⟩
+      simp only [extSerFlags, a3, b3, Res_bind_ok, Res_pure, extSizeFlags, List.take_add]
+    · intro cm vd s s' v hb hd
+      simp only [extDe] at hd
+      obtain ⟨c0, s1, h1, hd⟩ := M_bind_ok_inv hd
+      obtain ⟨c1, s2, h2, hd⟩ := M_bind_ok_inv hd
+      cases hd
+      obtain ⟨-, rfl⟩ := (extDe_reads h t cm vd).ok_used _ _ _ h1
+      obtain ⟨a1, a2, a3⟩ := ih2 _ _ _ _ _ hb h1
+      obtain ⟨b1, b2, b3⟩ := ih2 _ _ _ _ _ (mem_drop_lt hb _) h2
+      refine ⟨⟨a1, b1⟩, ⟨a2, b2⟩, ?_⟩
+      simp only [extSerFlags, a3, b3, Res_bind_ok, Res_pure, extSizeFlags, List.take_add]
+  | cubic t ih =>
+    obtain ⟨ih1, ih2⟩ := ih
+    constructor
+    · intro Fl _ hf hsub s s' v fl hb hd
+      simp only [extDeFlags] at hd
+      obtain ⟨c0, s1, h1, hd⟩ := M_bind_ok_inv hd
+      obtain ⟨c1, s2, h2, hd⟩ := M_bind_ok_inv hd
+      obtain ⟨⟨c2, fl'⟩, s3, h3, hd⟩ := M_bind_ok_inv hd
+      cases hd
+      obtain ⟨-, rfl⟩ := (extDe_reads h t .yes .yes).ok_used _ _ _ h1
+      obtain ⟨-, rfl⟩ := (extDe_reads h t .yes .yes).ok_used _ _ _ h2
+      obtain ⟨a1, a2, a3⟩ := ih2 _ _ _ _ _ hb h1
+      obtain ⟨b1, b2, b3⟩ := ih2 _ _ _ _ _ (mem_drop_lt hb _) h2
+      obtain ⟨d1, d2, d3⟩ := ih1 Fl hf hsub _ _ _ _ (mem_drop_lt (mem_drop_lt hb _) _) h3
+      refine ⟨⟨a1, b1, d1⟩, ⟨a2, b2, d2⟩, ?_⟩
+      simp only [List.drop_drop] at d3
+      simp only [extSerFlags, a3, b3, d3, Res_bind_ok, Res_pure, extSizeFlags, List.take_add,
+        List.append_assoc, List.drop_drop]
+    · intro cm vd s s' v hb hd
+      simp only [extDe] at hd
+      obtain ⟨c0, s1, h1, hd⟩ := M_bind_ok_inv hd
+      obtain ⟨c1, s2, h2, hd⟩ := M_bind_ok_inv hd
+      obtain ⟨c2, s3, h3, hd⟩ := M_bind_ok_inv hd
+      cases hd
+      obtain ⟨-, rfl⟩ := (extDe_reads h t cm vd).ok_used _ _ _ h1
+      obtain ⟨-, rfl⟩ := (extDe_reads h t cm vd).ok_used _ _ _ h2
+      obtain ⟨a1, a2, a3⟩ := ih2 _ _ _ _ _ hb h1
+      obtain ⟨b1, b2, b3⟩ := ih2 _ _ _ _ _ (mem_drop_lt hb _) h2
+      obtain ⟨d1, d2, d3⟩ := ih2 _ _ _ _ _ (mem_drop_lt (mem_drop_lt hb _) _) h3
+      refine ⟨⟨a1, b1, d1⟩, ⟨a2, b2, d2⟩, ?_⟩
+      simp only [List.drop_drop] at d3
+      simp only [extSerFlags, a3, b3, d3, Res_bind_ok, Res_pure, extSizeFlags, List.take_add,
+        List.append_assoc, List.drop_drop]
+
+/-! ## The point layer over an abstract coordinate-field dictionary -/
+
+/-- what the point code needs from the (de)serialisers of its coordinate field; `canon` singles out
+    the canonical representatives (`val < p` for `Fp`, everything for a genuine field) -/
+structure CodecOK {F : Type} (K : Codec F) (canon : F → Prop) : Prop where
+  ser_size : ∀ (Fl : Type) [Flags Fl] (x : F) (fl : Fl) (bs : List Nat),
+    K.serFlags Fl x fl = .ok bs → bs.length = K.sizeFlags Fl
+  deFlags_reads : ∀ (Fl : Type) [Flags Fl], Reads (K.deFlags Fl) (K.sizeFlags Fl)
+  de_reads : ∀ (cm : Compress) (vd : Validate), Reads (K.de cm vd) (K.sizeFlags EmptyFlags)
+  deFlags_canon : ∀ (Fl : Type) [Flags Fl] (s s' : Rd) (x : F) (fl : Fl),
+    K.deFlags Fl s = .ok (x, fl) s' → canon x
+  de_canon : ∀ (cm : Compress) (vd : Validate) (s s' : Rd) (x : F), K.de cm vd s = .ok x s' → canon x
+  rt_flags : ∀ (Fl : Type) [Flags Fl], FlagsOK Fl → ∀ (x : F) (fl : Fl) (bs : List Nat), canon x →
+    K.serFlags Fl x fl = .ok bs → ∀ (tl : List Nat) (u : Nat),
+    K.deFlags Fl ⟨bs ++ tl, u⟩ = .ok (x, fl) ⟨tl, u + bs.length⟩
+  rt_plain : ∀ (x : F) (bs : List Nat) (cm : Compress) (vd : Validate), canon x →
+    K.serFlags EmptyFlags x .mk = .ok bs → ∀ (tl : List Nat) (u : Nat),
+    K.de cm vd ⟨bs ++ tl, u⟩ = .ok x ⟨tl, u + bs.length⟩
+
+/-- the prime-field dictionary used by the driver -/
+theorem fpCodecOK {c : FpCfg} (h : WFc c) : CodecOK (fpCodec c) (fun x => x.val < c.p) where
+  ser_size := fun _ _ _ _ _ hs => fpSer_size h hs
+  deFlags_reads := fun Fl _ => fpDeFlags_reads h Fl
+  de_reads := fun cm vd => fpDe_reads h cm vd
+  deFlags_canon := fun _ _ _ _ _ _ hd => fpDe_ok_lt h hd
+  de_canon := by
+    intro cm vd s s' x hd
+    have hd' : fpDe c cm vd s = .ok x s' := hd
+    unfold fpDe at hd'
+    obtain ⟨⟨x', fl⟩, s1, h1, h2⟩ := M_bind_ok_inv hd'
+    cases h2
+    exact fpDe_ok_lt h h1
+  rt_flags := fun _ _ hF x fl bs hx hs tl u => fpRT h hF x hx fl bs hs tl u
+  rt_plain := fun x bs cm vd hx hs tl u => fpDe_RT h x hx bs hs cm vd tl u
+
+section points
+variable {F : Type} [Add F] [Sub F] [Mul F] [Neg F] [Zero F] [One F] [Inv F] [DecidableEq F]
+
+/-! ### Short Weierstrass: size, consumption, totality -/
+
+theorem swSer_size {K : Codec F} {canon : F → Prop} (hK : CodecOK K canon) (P : SWAff F) (cm : Compress)
+    (bs : List Nat) (hs : swSerialize K P cm = .ok bs) : bs.length = swSerializedSize K cm := by
+  unfold swSerialize at hs
+  cases cm with
+  | yes => exact hK.ser_size _ _ _ _ hs
+  | no =>
+    simp only at hs
+    obtain ⟨a, ha, hs⟩ := Res_bind_ok_inv hs
+    obtain ⟨b, hb, hs⟩ := Res_bind_ok_inv hs
+    cases hs
+    simp only [List.length_append, swSerializedSize, Codec.size, hK.ser_size _ _ _ _ ha,
+      hK.ser_size _ _ _ _ hb]
+
+theorem Res_ofOutcome_ok_inv {α : Type} {o : Outcome α} {a : α} (h : Res.ofOutcome o = .ok a) : o = .ok a := by
+  cases o with
+  | ok b => cases h; rfl
+  | panic => cases h
+
+theorem swProjSer_size {K : Codec F} {canon : F → Prop} (hK : CodecOK K canon) (P : SWProj F) (cm : Compress)
+    (bs : List Nat) (hs : swProjSerialize K P cm = .ok bs) : bs.length = swSerializedSize K cm := by
+  unfold swProjSerialize at hs
+  obtain ⟨a, -, hs⟩ := Res_bind_ok_inv hs
+  exact swSer_size hK a cm bs hs
+
+/-- the validation stage after the coordinates have been read -/
+theorem swFinish_reads (E : SWCfg F) (vd : Validate) (q : F × F × SWFlags) :
+    Reads (if q.2.2.isInfinity = true then pure SWAff.identity
+      else if (decide (vd = Validate.yes) && !swCheck E { x := q.1, y := q.2.1, infinity := false }) = true
+        then throwE Err.invalid
+        else (pure { x := q.1, y := q.2.1, infinity := false } : M (SWAff F))) 0 := by
+  split
+  · exact Reads.pure _
+  · split
+    · exact Reads.throw _ _
+    · exact Reads.pure _
+
+theorem swDe_reads {K : Codec F} {canon : F → Prop} (hK : CodecOK K canon) (E : SWCfg F) (cm : Compress)
+    (vd : Validate) : Reads (swDeserialize K E cm vd) (swSerializedSize K cm) := by
+  unfold swDeserialize
+  cases cm with
+  | yes =>
+    simp only [swSerializedSize]
+    refine Reads.bind0 (Reads.bind0 (hK.deFlags_reads SWFlags) ?_) (swFinish_reads E vd)
+    rintro ⟨x, flags⟩
+    cases flags with
+    | pointAtInfinity => exact Reads.pure _
+    | yIsPositive =>
+      simp only [SWFlags.isPositive]
+      split
+      · exact Reads.throw _ _
+      · split <;> exact Reads.pure _
+    | yIsNegative =>
+      simp only [SWFlags.isPositive]
+      split
+      · exact Reads.throw _ _
+      · split <;> exact Reads.pure _
+  | no =>
+    simp only [swSerializedSize, Codec.size]
+    exact Reads.bind0 (Reads.bind (hK.de_reads _ _) (fun x =>
+      Reads.bind0 (hK.deFlags_reads SWFlags) (fun q => Reads.pure _))) (swFinish_reads E vd)
+
+theorem swProjDe_reads {K : Codec F} {canon : F → Prop} (hK : CodecOK K canon) (E : SWCfg F) (cm : Compress)
+    (vd : Validate) : Reads (swProjDeserialize K E cm vd) (swSerializedSize K cm) := by
+  unfold swProjDeserialize
+  exact Reads.bind0 (swDe_reads hK E cm vd) (fun a => Reads.pure _)
+
+end points
+
+section points
+variable {F : Type} [Add F] [Sub F] [Mul F] [Neg F] [Zero F] [One F] [Inv F] [DecidableEq F]
+
+/-! ### Short Weierstrass: validity of accepted points, sign flag, uncompressed round trip -/
+
+/-- second stage of `swDeserialize` -/
+def swFinish (E : SWCfg F) (vd : Validate) (q : F × F × SWFlags) : M (SWAff F) :=
+  if q.2.2.isInfinity = true then pure SWAff.identity
+  else if (decide (vd = Validate.yes) && !swCheck E { x := q.1, y := q.2.1, infinity := false }) = true
+    then throwE Err.invalid
+    else pure { x := q.1, y := q.2.1, infinity := false }
+
+theorem swFinish_ok_inv {E : SWCfg F} {vd : Validate} {q : F × F × SWFlags} {s s' : Rd} {P : SWAff F}
+    (h : swFinish E vd q s = .ok P s') :
+    (q.2.2.isInfinity = true ∧ P = SWAff.identity) ∨
+    (q.2.2.isInfinity = false ∧ P = ⟨q.1, q.2.1, false⟩ ∧ (vd = .yes → swCheck E P = true)) := by
+  unfold swFinish at h
+  by_cases hi : q.2.2.isInfinity = true
+  · rw [if_pos hi] at h; cases h; exact Or.inl ⟨hi, rfl⟩
+  · rw [if_neg hi] at h
+    right
+    by_cases hc : (decide (vd = Validate.yes) && !swCheck E { x := q.1, y := q.2.1, infinity := false }) = true
+    · rw [if_pos hc] at h; cases h
+    · rw [if_neg hc] at h; cases h
+      refine ⟨by simpa using hi, rfl, fun hv => ?_⟩
+      subst hv
+      simpa using hc
+
+theorem swDeserialize_eq (K : Codec F) (E : SWCfg F) (cm : Compress) (vd : Validate) :
+    swDeserialize K E cm vd =
+      ((match cm with
+        | .yes => do
+          let (x, flags) ← K.deFlags SWFlags
+          match flags with
+          | .pointAtInfinity => pure ((0 : F), (0 : F), flags)
+          | _ =>
+            match flags.isPositive with
+            | none => panicM
+            | some isPositive =>
+              match swGetYsFromX K E x with
+              | none => throwE .invalid
+              | some (y, negY) => if isPositive then pure (x, y, flags) else pure (x, negY, flags)
+        | .no => do
+          let x ← K.de cm vd
+          let (y, flags) ← K.deFlags SWFlags
+          pure (x, y, flags)) >>= swFinish E vd) := rfl
+
+/-- a point accepted in checked mode is the identity or passes `Valid::check` -/
+theorem swDe_valid {K : Codec F} {E : SWCfg F} {cm : Compress} {s s' : Rd} {P : SWAff F}
+    (h : swDeserialize K E cm .yes s = .ok P s') :
+    P = SWAff.identity ∨ (P.infinity = false ∧ swCheck E P = true) := by
+  rw [swDeserialize_eq] at h
+  obtain ⟨q, s1, -, h2⟩ := M_bind_ok_inv h
+  rcases swFinish_ok_inv h2 with ⟨-, rfl⟩ | ⟨-, rfl, hc⟩
+  · exact Or.inl rfl
+  · exact Or.inr ⟨rfl, hc rfl⟩
+
+/-- `to_flags`: the sign flag is `yIsPositive` exactly when `y ≤ −y` -/
+theorem swToFlags_pos_iff (K : Codec F) (P : SWAff F) (hP : P.infinity = false) :
+    swToFlags K P = .yIsPositive ↔ K.le P.y (-P.y) = true := by
+  unfold swToFlags
+  rw [if_neg (by simp [hP])]
+  by_cases hle : K.le P.y (-P.y) = true
+  · simp [hle]
+  · simp [hle]
+
+theorem swToFlags_not_inf (K : Codec F) (P : SWAff F) (hP : P.infinity = false) :
+    (swToFlags K P).isInfinity = false := by
+  unfold swToFlags
+  rw [if_neg (by simp [hP])]
+  split <;> rfl
+
+theorem swToFlags_inf (K : Codec F) (P : SWAff F) (hP : P.infinity = true) :
+    swToFlags K P = .pointAtInfinity := by
+  unfold swToFlags; rw [if_pos hP]
+
+/-- uncompressed round trip on an arbitrary reader state -/
+theorem swRT_uncompressed {K : Codec F} {canon : F → Prop} (hK : CodecOK K canon) (h0 : canon 0)
+    (E : SWCfg F) (P : SWAff F) (hc : P.infinity = false → canon P.x ∧ canon P.y) (vd : Validate)
+    (bs : List Nat) (hs : swSerialize K P .no = .ok bs) (tl : List Nat) (u : Nat) :
+    swDeserialize K E .no vd ⟨bs ++ tl, u⟩ =
+      if P.infinity = true then .ok SWAff.identity ⟨tl, u + bs.length⟩
+      else if vd = .yes ∧ swCheck E P = false then .err .invalid ⟨tl, u + bs.length⟩
+      else .ok P ⟨tl, u + bs.length⟩ := by
+  rw [swDeserialize_eq]
+  unfold swSerialize at hs
+  simp only at hs
+  obtain ⟨a, ha, hs⟩ := Res_bind_ok_inv hs
+  obtain ⟨b, hb, hs⟩ := Res_bind_ok_inv hs
+  cases hs
+  obtain ⟨x, y, inf⟩ := P
+  cases inf with
+  | true =>
+    simp only [if_true] at ha hb ⊢
+    simp only [List.append_assoc]
+    refine Eq.trans (M_bind_ok (a := ((0 : F), (0 : F), SWFlags.pointAtInfinity))
+      (s' := ⟨tl, u + a.length + b.length⟩) ?_) ?_
+    · rw [M_bind_ok (hK.rt_plain _ a _ vd h0 ha (b ++ tl) u),
+        M_bind_ok (hK.rt_flags SWFlags swFlagsOK _ _ b h0 hb tl (u + a.length))]
+      rfl
+    simp only [M_pure_apply, swFinish, SWFlags.isInfinity, if_true, List.length_append, Nat.add_assoc]
+    rfl
+  | false =>
+    obtain ⟨hx, hy⟩ := hc rfl
+    simp only [Bool.false_eq_true, if_false] at ha hb ⊢
+    simp only [List.append_assoc]
+    refine Eq.trans (M_bind_ok (a := (x, y, swToFlags K ⟨x, y, false⟩))
+      (s' := ⟨tl, u + a.length + b.length⟩) ?_) ?_
+    · rw [M_bind_ok (hK.rt_plain _ a _ vd hx ha (b ++ tl) u),
+        M_bind_ok (hK.rt_flags SWFlags swFlagsOK _ _ b hy hb tl (u + a.length))]
+      rfl
+    simp only [M_pure_apply, swFinish, swToFlags_not_inf K ⟨x, y, false⟩ rfl, Bool.false_eq_true, if_false,
+      List.length_append, Nat.add_assoc]
+    cases vd with
+    | yes =>
+      cases hchk : swCheck E ⟨x, y, false⟩ <;> simp [throwE, M_pure_apply]
+    | no => simp [M_pure_apply]
+
+end points
+
+section points
+variable {F : Type} [Add F] [Sub F] [Mul F] [Neg F] [Zero F] [One F] [Inv F] [DecidableEq F]
+
+/-! ### Sign rule and compressed round trip (short Weierstrass) -/
+
+/-- the little algebra the sign rule needs, on canonical representatives -/
+structure SignLaws (F : Type) [Add F] [Mul F] [Neg F] (canon : F → Prop) : Prop where
+  canon_add : ∀ a b : F, canon (a + b)
+  canon_mul : ∀ a b : F, canon (a * b)
+  canon_neg : ∀ a : F, canon (-a)
+  neg_neg : ∀ a : F, canon a → - -a = a
+  neg_sq : ∀ a : F, (-a) * (-a) = a * a
+  sq_eq : ∀ y y' : F, canon y → canon y' → y' * y' = y * y → y' = y ∨ y' = -y
+
+/-- `Field::sqrt` returns some root exactly for squares -/
+structure SqrtOK (K : Codec F) (canon : F → Prop) : Prop where
+  sound : ∀ a y : F, canon a → K.sqrt a = some y → canon y ∧ y * y = a
+  complete : ∀ a y : F, canon a → canon y → y * y = a → ∃ y', K.sqrt a = some y'
+
+/-- `Ord` on the coordinate field is a strict total order (on canonical representatives) -/
+structure LtOK (K : Codec F) (canon : F → Prop) : Prop where
+  asymm : ∀ a b : F, K.lt a b = true → K.lt b a = false
+  total : ∀ a b : F, canon a → canon b → K.lt a b = false → K.lt b a = false → a = b
+
+/-- right-hand side `x³ + a·x + b` as the Rust code computes it -/
+def swRhs (E : SWCfg F) (x : F) : F :=
+  let x3b := swAddB E ((x * x) * x)
+  if E.a ≠ 0 then x3b + swMulByA E x else x3b
+
+theorem swRhs_canon {canon : F → Prop} (hL : SignLaws F canon) (E : SWCfg F) (x : F) : canon (swRhs E x) := by
+  unfold swRhs swAddB
+  simp only
+  split
+  · exact hL.canon_add _ _
+  · split
+    · exact hL.canon_mul _ _
+    · exact hL.canon_add _ _
+
+theorem swIsOnCurve_iff (E : SWCfg F) (P : SWAff F) (hP : P.infinity = false) :
+    swIsOnCurve E P = true ↔ P.y * P.y = swRhs E P.x := by
+  unfold swIsOnCurve
+  rw [if_neg (by simp [hP])]
+  simp only [swRhs, beq_iff_eq]
+
+theorem swGetYsFromX_eq (K : Codec F) (E : SWCfg F) (x : F) :
+    swGetYsFromX K E x = match K.sqrt (swRhs E x) with
+      | none => none
+      | some y => if K.lt y (-y) then some (y, -y) else some (-y, y) := rfl
+
+/-- sign rule: `get_ys_from_x_unchecked` returns `(y, −y)` with `y ≤ −y`, both roots of the curve equation -/
+theorem swGetYs_spec {K : Codec F} {canon : F → Prop} (hL : SignLaws F canon) (hS : SqrtOK K canon)
+    (hO : LtOK K canon) (E : SWCfg F) (x y1 y2 : F) (h : swGetYsFromX K E x = some (y1, y2)) :
+    y2 = -y1 ∧ K.lt y2 y1 = false ∧ y1 * y1 = swRhs E x ∧ canon y1 ∧ canon y2 := by
+  rw [swGetYsFromX_eq] at h
+  cases hsq : K.sqrt (swRhs E x) with
+  | none => rw [hsq] at h; cases h
+  | some y =>
+    rw [hsq] at h
+    obtain ⟨hy, hyy⟩ := hS.sound _ _ (swRhs_canon hL E x) hsq
+    simp only at h
+    by_cases hlt : K.lt y (-y) = true
+    · rw [if_pos hlt] at h
+      simp only [Option.some.injEq, Prod.mk.injEq] at h
+      rw [← h.1, ← h.2]
+      exact ⟨rfl, hO.asymm _ _ hlt, hyy, hy, hL.canon_neg _⟩
+    · rw [if_neg hlt] at h
+      simp only [Option.some.injEq, Prod.mk.injEq] at h
+      rw [← h.1, ← h.2]
+      exact ⟨(hL.neg_neg y hy).symm, by simpa using hlt, by rw [hL.neg_sq, hyy], hL.canon_neg _, hy⟩
+
+theorem swGetYs_some {K : Codec F} {canon : F → Prop} (hL : SignLaws F canon) (hS : SqrtOK K canon)
+    (E : SWCfg F) (x y : F) (hy : canon y) (hyy : y * y = swRhs E x) :
+    ∃ y1 y2, swGetYsFromX K E x = some (y1, y2) := by
+  obtain ⟨y', hy'⟩ := hS.complete _ y (swRhs_canon hL E x) hy hyy
+  rw [swGetYsFromX_eq, hy']
+  simp only
+  split
+  · exact ⟨_, _, rfl⟩
+  · exact ⟨_, _, rfl⟩
+
+/-- the pair is determined by the curve equation and the order alone -/
+theorem swGetYs_determined {K : Codec F} {canon : F → Prop} (hL : SignLaws F canon) (hO : LtOK K canon)
+    (r y1 y1' : F) (h1 : canon y1) (h1' : canon y1') (e1 : y1 * y1 = r) (e1' : y1' * y1' = r)
+    (l1 : K.lt (-y1) y1 = false) (l1' : K.lt (-y1') y1' = false) : y1' = y1 := by
+  rcases hL.sq_eq y1 y1' h1 h1' (by rw [e1, e1']) with e | e
+  · exact e
+  · -- y1' = -y1
+    subst e
+    rw [hL.neg_neg y1 h1] at l1'
+    exact (hO.total _ _ (hL.canon_neg _) h1 l1 l1')
+
+/-- independence of the root chosen by `sqrt`: two dictionaries with the same order give the same pair -/
+theorem swGetYs_indep {K K' : Codec F} {canon : F → Prop} (hL : SignLaws F canon) (hS : SqrtOK K canon)
+    (hS' : SqrtOK K' canon) (hO : LtOK K canon) (hlt : K'.lt = K.lt) (E : SWCfg F) (x : F) :
+    swGetYsFromX K' E x = swGetYsFromX K E x := by
+  have hO' : LtOK K' canon := ⟨by rw [hlt]; exact hO.asymm, by rw [hlt]; exact hO.total⟩
+  cases h : swGetYsFromX K E x with
+  | none =>
+    cases h' : swGetYsFromX K' E x with
+    | none => rfl
+    | some q =>
+      obtain ⟨y1, y2⟩ := q
+      obtain ⟨-, -, e, c, -⟩ := swGetYs_spec hL hS' hO' E x y1 y2 h'
+      obtain ⟨a, b, hab⟩ := swGetYs_some (K := K) hL hS E x y1 c e
+      rw [hab] at h; cases h
+  | some q =>
+    obtain ⟨y1, y2⟩ := q
+    obtain ⟨e2, l, e, c, -⟩ := swGetYs_spec hL hS hO E x y1 y2 h
+    obtain ⟨y1', y2', h'⟩ := swGetYs_some (K := K') hL hS' E x y1 c e
+    obtain ⟨e2', l', e', c', -⟩ := swGetYs_spec hL hS' hO' E x y1' y2' h'
+    rw [h']
+    subst e2 e2'
+    rw [hlt] at l'
+    have := swGetYs_determined hL hO _ y1 y1' c c' e e' l l'
+    rw [this]
+
+end points
+
+section points
+variable {F : Type} [Add F] [Sub F] [Mul F] [Neg F] [Zero F] [One F] [Inv F] [DecidableEq F]
+
+/-- the root selected by the sign flag is the serialised `y` -/
+theorem swSelect_y {K : Codec F} {canon : F → Prop} (hL : SignLaws F canon) (hS : SqrtOK K canon)
+    (hO : LtOK K canon) (E : SWCfg F) (x y : F) (hy : canon y) (hon : y * y = swRhs E x) :
+    ∃ y1 y2, swGetYsFromX K E x = some (y1, y2) ∧
+      (if K.le y (-y) = true then y1 else y2) = y := by
+  obtain ⟨y1, y2, hg⟩ := swGetYs_some (K := K) hL hS E x y hy hon
+  obtain ⟨e2, l, e, c1, c2⟩ := swGetYs_spec hL hS hO E x y1 y2 hg
+  refine ⟨y1, y2, hg, ?_⟩
+  subst e2
+  rcases hL.sq_eq y y1 hy c1 (by rw [e, hon]) with e1 | e1
+  · -- y1 = y
+    subst e1
+    unfold Codec.le
+    rw [l]; simp
+  · -- y1 = -y
+    subst e1
+    rw [hL.neg_neg y hy] at l ⊢
+    unfold Codec.le
+    by_cases hlt : K.lt (-y) y = true
+    · rw [hlt]; simp
+    · have hlt' : K.lt (-y) y = false := by simpa using hlt
+      rw [hlt']; simp
+      exact hO.total _ _ (hL.canon_neg _) hy hlt' l
+
+/-- compressed round trip on an arbitrary reader state, for a point on the curve -/
+theorem swRT_compressed {K : Codec F} {canon : F → Prop} (hK : CodecOK K canon) (h0 : canon 0)
+    (hL : SignLaws F canon) (hS : SqrtOK K canon) (hO : LtOK K canon)
+    (E : SWCfg F) (P : SWAff F) (hc : P.infinity = false → canon P.x ∧ canon P.y)
+    (hon : swIsOnCurve E P = true) (vd : Validate)
+    (bs : List Nat) (hs : swSerialize K P .yes = .ok bs) (tl : List Nat) (u : Nat) :
+    swDeserialize K E .yes vd ⟨bs ++ tl, u⟩ =
+      if P.infinity = true then .ok SWAff.identity ⟨tl, u + bs.length⟩
+      else if vd = .yes ∧ swCheck E P = false then .err .invalid ⟨tl, u + bs.length⟩
+      else .ok P ⟨tl, u + bs.length⟩ := by
+  rw [swDeserialize_eq]
+  unfold swSerialize at hs
+  simp only at hs
+  obtain ⟨x, y, inf⟩ := P
+  cases inf with
+  | true =>
+    simp only [if_true] at hs ⊢
+    refine Eq.trans (M_bind_ok (a := ((0 : F), (0 : F), SWFlags.pointAtInfinity))
+      (s' := ⟨tl, u + bs.length⟩) ?_) ?_
+    · rw [M_bind_ok (hK.rt_flags SWFlags swFlagsOK _ _ bs h0 hs tl u)]
+      rfl
+    · rfl
+  | false =>
+    obtain ⟨hx, hy⟩ := hc rfl
+    simp only [Bool.false_eq_true, if_false] at hs ⊢
+    have hon' := (swIsOnCurve_iff E ⟨x, y, false⟩ rfl).mp hon
+    obtain ⟨y1, y2, hg, hsel⟩ := swSelect_y hL hS hO E x y hy hon'
+    refine Eq.trans (M_bind_ok (a := (x, y, swToFlags K ⟨x, y, false⟩))
+      (s' := ⟨tl, u + bs.length⟩) ?_) ?_
+    · rw [M_bind_ok (hK.rt_flags SWFlags swFlagsOK _ _ bs hx hs tl u)]
+      simp only
+      by_cases hle : K.le y (-y) = true
+      · have hf : swToFlags K ⟨x, y, false⟩ = .yIsPositive := by simp [swToFlags, hle]
+        rw [if_pos hle] at hsel
+        rw [hf]
+        simp only [SWFlags.isPositive, hg, if_true, hsel, M_pure_apply]
+      · have hf : swToFlags K ⟨x, y, false⟩ = .yIsNegative := by simp [swToFlags, hle]
+        rw [if_neg hle] at hsel
+        rw [hf]
+        simp only [SWFlags.isPositive, hg, Bool.false_eq_true, if_false, hsel, M_pure_apply]
+    · simp only [swFinish, swToFlags_not_inf K ⟨x, y, false⟩ rfl, Bool.false_eq_true, if_false]
+      cases vd with
+      | yes =>
+        cases hchk : swCheck E ⟨x, y, false⟩ <;> simp [throwE, M_pure_apply]
+      | no => simp [M_pure_apply]
+
+end points
+
+section points
+variable {F : Type} [Add F] [Sub F] [Mul F] [Neg F] [Zero F] [One F] [Inv F] [DecidableEq F]
+
+/-! ### Projective wrappers (short Weierstrass) -/
+
+/-- `into_affine` never hits the `unwrap` of `z.inverse()`: `z = 0` is matched first -/
+theorem swToAffine_total (P : SWProj F) : ∃ A, swToAffine P = .ok A := by
+  unfold swToAffine
+  by_cases hz : P.isZero = true
+  · rw [if_pos hz]; exact ⟨_, rfl⟩
+  · rw [if_neg hz]
+    by_cases h1 : P.z = 1
+    · rw [if_pos h1]; exact ⟨_, rfl⟩
+    · rw [if_neg h1]
+      have : P.z ≠ 0 := by
+        intro h0; apply hz; unfold SWProj.isZero; rw [h0]; simp
+      unfold inverse
+      rw [if_neg this]
+      exact ⟨_, rfl⟩
+
+theorem swProjSerialize_eq {K : Codec F} {P : SWProj F} {A : SWAff F} (h : swToAffine P = .ok A)
+    (cm : Compress) : swProjSerialize K P cm = swSerialize K A cm := by
+  unfold swProjSerialize; rw [h]; rfl
+
+theorem swProjDeserialize_apply (K : Codec F) (E : SWCfg F) (cm : Compress) (vd : Validate) (s : Rd) :
+    swProjDeserialize K E cm vd s = match swDeserialize K E cm vd s with
+      | .ok a s' => .ok (swFromAffine a) s'
+      | .err e s' => .err e s'
+      | .panic => .panic := by
+  unfold swProjDeserialize; rw [M_bind_apply]
+  cases swDeserialize K E cm vd s <;> rfl
+
+/-! ### Twisted Edwards -/
+
+theorem teSer_size {K : Codec F} {canon : F → Prop} (hK : CodecOK K canon) (P : TEAff F) (cm : Compress)
+    (bs : List Nat) (hs : teSerialize K P cm = .ok bs) : bs.length = teSerializedSize K cm := by
+  unfold teSerialize at hs
+  cases cm with
+  | yes => exact hK.ser_size _ _ _ _ hs
+  | no =>
+    simp only at hs
+    obtain ⟨a, ha, hs⟩ := Res_bind_ok_inv hs
+    obtain ⟨b, hb, hs⟩ := Res_bind_ok_inv hs
+    cases hs
+    simp only [List.length_append, teSerializedSize, Codec.size, hK.ser_size _ _ _ _ ha,
+      hK.ser_size _ _ _ _ hb]
+
+theorem teProjSer_size {K : Codec F} {canon : F → Prop} (hK : CodecOK K canon) (P : TEProj F) (cm : Compress)
+    (bs : List Nat) (hs : teProjSerialize K P cm = .ok bs) : bs.length = teSerializedSize K cm := by
+  unfold teProjSerialize at hs
+  obtain ⟨a, -, hs⟩ := Res_bind_ok_inv hs
+  exact teSer_size hK a cm bs hs
+
+/-- second stage of `teDeserialize` -/
+def teFinish (E : TECfg F) (vd : Validate) (q : F × F) : M (TEAff F) :=
+  if (decide (vd = Validate.yes) && !teCheck E { x := q.1, y := q.2 }) = true then throwE Err.invalid
+  else pure { x := q.1, y := q.2 }
+
+theorem teFinish_reads (E : TECfg F) (vd : Validate) (q : F × F) : Reads (teFinish E vd q) 0 := by
+  unfold teFinish
+  split
+  · exact Reads.throw _ _
+  · exact Reads.pure _
+
+theorem teDeserialize_eq (K : Codec F) (E : TECfg F) (cm : Compress) (vd : Validate) :
+    teDeserialize K E cm vd =
+      ((match cm with
+        | .yes => do
+          let (y, flags) ← K.deFlags TEFlags
+          match teGetXsFromY K E y with
+          | none => throwE .invalid
+          | some (x, negX) => if flags.isNegative then pure (negX, y) else pure (x, y)
+        | .no => do
+          let x ← K.de .no .yes
+          let y ← K.de .no .yes
+          pure (x, y)) >>= teFinish E vd) := rfl
+
+theorem teDe_reads {K : Codec F} {canon : F → Prop} (hK : CodecOK K canon) (E : TECfg F) (cm : Compress)
+    (vd : Validate) : Reads (teDeserialize K E cm vd) (teSerializedSize K cm) := by
+  rw [teDeserialize_eq]
+  cases cm with
+  | yes =>
+    simp only [teSerializedSize]
+    refine Reads.bind0 (Reads.bind0 (hK.deFlags_reads TEFlags) ?_) (teFinish_reads E vd)
+    rintro ⟨y, flags⟩
+    simp only
+    split
+    · exact Reads.throw _ _
+    · split <;> exact Reads.pure _
+  | no =>
+    simp only [teSerializedSize, Codec.size]
+    exact Reads.bind0 (Reads.bind (hK.de_reads _ _) (fun x =>
+      Reads.bind0 (hK.de_reads _ _) (fun q => Reads.pure _))) (teFinish_reads E vd)
+
+theorem teProjDe_reads {K : Codec F} {canon : F → Prop} (hK : CodecOK K canon) (E : TECfg F) (cm : Compress)
+    (vd : Validate) : Reads (teProjDeserialize K E cm vd) (teSerializedSize K cm) := by
+  unfold teProjDeserialize
+  exact Reads.bind0 (teDe_reads hK E cm vd) (fun a => Reads.pure _)
+
+theorem teFinish_ok_inv {E : TECfg F} {vd : Validate} {q : F × F} {s s' : Rd} {P : TEAff F}
+    (h : teFinish E vd q s = .ok P s') : P = ⟨q.1, q.2⟩ ∧ (vd = .yes → teCheck E P = true) := by
+  unfold teFinish at h
+  by_cases hc : (decide (vd = Validate.yes) && !teCheck E { x := q.1, y := q.2 }) = true
+  · rw [if_pos hc] at h; cases h
+  · rw [if_neg hc] at h; cases h
+    refine ⟨rfl, fun hv => ?_⟩
+    subst hv
+    simpa using hc
+
+/-- a point accepted in checked mode passes `Valid::check` -/
+theorem teDe_valid {K : Codec F} {E : TECfg F} {cm : Compress} {s s' : Rd} {P : TEAff F}
+    (h : teDeserialize K E cm .yes s = .ok P s') : teCheck E P = true := by
+  rw [teDeserialize_eq] at h
+  obtain ⟨q, s1, -, h2⟩ := M_bind_ok_inv h
+  exact (teFinish_ok_inv h2).2 rfl
+
+/-- `into_affine` never hits the `unwrap` of `z.inverse()` unless `z = 0` on a non-identity
+    representation -/
+theorem teToAffine_total (P : TEProj F) (hz : P.z ≠ 0) : ∃ A, teToAffine P = .ok A := by
+  unfold teToAffine
+  split
+  · exact ⟨_, rfl⟩
+  · split
+    · exact ⟨_, rfl⟩
+    · unfold inverse; rw [if_neg hz]; exact ⟨_, rfl⟩
+
+theorem teProjSerialize_eq {K : Codec F} {P : TEProj F} {A : TEAff F} (h : teToAffine P = .ok A)
+    (cm : Compress) : teProjSerialize K P cm = teSerialize K A cm := by
+  unfold teProjSerialize; rw [h]; rfl
+
+theorem teProjDeserialize_apply (K : Codec F) (E : TECfg F) (cm : Compress) (vd : Validate) (s : Rd) :
+    teProjDeserialize K E cm vd s = match teDeserialize K E cm vd s with
+      | .ok a s' => .ok (teFromAffine a) s'
+      | .err e s' => .err e s'
+      | .panic => .panic := by
+  unfold teProjDeserialize; rw [M_bind_apply]
+  cases teDeserialize K E cm vd s <;> rfl
+
+/-- uncompressed round trip on an arbitrary reader state -/
+theorem teRT_uncompressed {K : Codec F} {canon : F → Prop} (hK : CodecOK K canon)
+    (E : TECfg F) (P : TEAff F) (hx : canon P.x) (hy : canon P.y) (vd : Validate)
+    (bs : List Nat) (hs : teSerialize K P .no = .ok bs) (tl : List Nat) (u : Nat) :
+    teDeserialize K E .no vd ⟨bs ++ tl, u⟩ =
+      if vd = .yes ∧ teCheck E P = false then .err .invalid ⟨tl, u + bs.length⟩
+      else .ok P ⟨tl, u + bs.length⟩ := by
+  rw [teDeserialize_eq]
+  unfold teSerialize at hs
+  simp only at hs
+  obtain ⟨a, ha, hs⟩ := Res_bind_ok_inv hs
+  obtain ⟨b, hb, hs⟩ := Res_bind_ok_inv hs
+  cases hs
+  obtain ⟨x, y⟩ := P
+  simp only [List.append_assoc]
+  refine Eq.trans (M_bind_ok (a := (x, y)) (s' := ⟨tl, u + a.length + b.length⟩) ?_) ?_
+  · rw [M_bind_ok (hK.rt_plain _ a _ _ hx ha (b ++ tl) u),
+      M_bind_ok (hK.rt_plain _ b _ _ hy hb tl (u + a.length))]
+    rfl
+  simp only [teFinish, List.length_append, Nat.add_assoc]
+  cases vd with
+  | yes => cases hchk : teCheck E ⟨x, y⟩ <;> simp [throwE, M_pure_apply]
+  | no => simp [M_pure_apply]
+
+end points
+
+section points
+variable {F : Type} [Add F] [Sub F] [Mul F] [Neg F] [Zero F] [One F] [Inv F] [DecidableEq F]
+
+/-! ### Twisted Edwards: sign rule and compressed round trip -/
+
+/-- given the smaller root `y1` of a pair `(y1, −y1)`, the flag computed from `y` selects `y` -/
+theorem sign_select {K : Codec F} {canon : F → Prop} (hL : SignLaws F canon) (hO : LtOK K canon)
+    (y y1 : F) (hy : canon y) (c1 : canon y1) (e : y1 * y1 = y * y) (l : K.lt (-y1) y1 = false) :
+    (if K.le y (-y) = true then y1 else -y1) = y := by
+  rcases hL.sq_eq y y1 hy c1 e with e1 | e1
+  · subst e1
+    unfold Codec.le
+    rw [l]; simp
+  · subst e1
+    rw [hL.neg_neg y hy] at l ⊢
+    unfold Codec.le
+    by_cases hlt : K.lt (-y) y = true
+    · rw [hlt]; simp
+    · have hlt' : K.lt (-y) y = false := by simpa using hlt
+      rw [hlt']; simp
+      exact hO.total _ _ (hL.canon_neg _) hy hlt' l
+
+/-- `x²` recovered from `y`: `(1 − y²) / (a − d·y²)` as the Rust code computes it -/
+def teX2 (E : TECfg F) (y : F) : F := (E.a - (y * y) * E.d)⁻¹ * (1 - y * y)
+
+theorem teGetXsFromY_eq (K : Codec F) (E : TECfg F) (y : F) :
+    teGetXsFromY K E y =
+      if E.a - (y * y) * E.d = 0 then none else
+      match K.sqrt (teX2 E y) with
+      | none => none
+      | some x => if K.le x (-x) then some (x, -x) else some (-x, x) := by
+  unfold teGetXsFromY inverse teX2
+  by_cases hden : E.a - y * y * E.d = 0
+  · simp only [hden, if_true]
+  · simp only [hden, if_false]
+    rfl
+
+/-- sign rule: `get_xs_from_y_unchecked` returns `(x, −x)` with `x ≤ −x`, both roots of `x² = (1−y²)/(a−d·y²)` -/
+theorem teGetXs_spec {K : Codec F} {canon : F → Prop} (hL : SignLaws F canon) (hS : SqrtOK K canon)
+    (hO : LtOK K canon) (E : TECfg F) (y x1 x2 : F) (h : teGetXsFromY K E y = some (x1, x2)) :
+    x2 = -x1 ∧ K.lt x2 x1 = false ∧ x1 * x1 = teX2 E y ∧ canon x1 ∧ canon x2 ∧
+      E.a - (y * y) * E.d ≠ 0 := by
+  rw [teGetXsFromY_eq] at h
+  by_cases hden : E.a - (y * y) * E.d = 0
+  · rw [if_pos hden] at h; cases h
+  rw [if_neg hden] at h
+  have hcan : canon (teX2 E y) := hL.canon_mul _ _
+  cases hsq : K.sqrt (teX2 E y) with
+  | none => rw [hsq] at h; cases h
+  | some x =>
+    rw [hsq] at h
+    obtain ⟨hx, hxx⟩ := hS.sound _ _ hcan hsq
+    simp only at h
+    by_cases hle : K.le x (-x) = true
+    · rw [if_pos hle] at h
+      simp only [Option.some.injEq, Prod.mk.injEq] at h
+      rw [← h.1, ← h.2]
+      refine ⟨rfl, ?_, hxx, hx, hL.canon_neg _, hden⟩
+      unfold Codec.le at hle; simpa using hle
+    · rw [if_neg hle] at h
+      simp only [Option.some.injEq, Prod.mk.injEq] at h
+      rw [← h.1, ← h.2]
+      refine ⟨(hL.neg_neg x hx).symm, ?_, by rw [hL.neg_sq, hxx], hL.canon_neg _, hx, hden⟩
+      unfold Codec.le at hle
+      exact hO.asymm _ _ (by simpa using hle)
+
+theorem teGetXs_some {K : Codec F} {canon : F → Prop} (hL : SignLaws F canon) (hS : SqrtOK K canon)
+    (E : TECfg F) (y x : F) (hden : E.a - (y * y) * E.d ≠ 0) (hx : canon x) (hxx : x * x = teX2 E y) :
+    ∃ x1 x2, teGetXsFromY K E y = some (x1, x2) := by
+  obtain ⟨x', hx'⟩ := hS.complete (teX2 E y) x (show canon (teX2 E y) from hL.canon_mul _ _) hx hxx
+  rw [teGetXsFromY_eq, if_neg hden, hx']
+  simp only
+  split
+  · exact ⟨_, _, rfl⟩
+  · exact ⟨_, _, rfl⟩
+
+/-- independence of the root chosen by `sqrt` -/
+theorem teGetXs_indep {K K' : Codec F} {canon : F → Prop} (hL : SignLaws F canon) (hS : SqrtOK K canon)
+    (hS' : SqrtOK K' canon) (hO : LtOK K canon) (hlt : K'.lt = K.lt) (E : TECfg F) (y : F) :
+    teGetXsFromY K' E y = teGetXsFromY K E y := by
+  have hO' : LtOK K' canon := ⟨by rw [hlt]; exact hO.asymm, by rw [hlt]; exact hO.total⟩
+  cases h : teGetXsFromY K E y with
+  | none =>
+    cases h' : teGetXsFromY K' E y with
+    | none => rfl
+    | some q =>
+      obtain ⟨x1, x2⟩ := q
+      obtain ⟨-, -, e, c, -, hden⟩ := teGetXs_spec hL hS' hO' E y x1 x2 h'
+      obtain ⟨a, b, hab⟩ := teGetXs_some (K := K) hL hS E y x1 hden c e
+      rw [hab] at h; cases h
+  | some q =>
+    obtain ⟨x1, x2⟩ := q
+    obtain ⟨e2, l, e, c, -, hden⟩ := teGetXs_spec hL hS hO E y x1 x2 h
+    obtain ⟨x1', x2', h'⟩ := teGetXs_some (K := K') hL hS' E y x1 hden c e
+    obtain ⟨e2', l', e', c', -, -⟩ := teGetXs_spec hL hS' hO' E y x1' x2' h'
+    rw [h']
+    subst e2 e2'
+    rw [hlt] at l'
+    have := swGetYs_determined hL hO _ x1 x1' c c' e e' l l'
+    rw [this]
+
+/-- compressed round trip on an arbitrary reader state: `hsolve` is the curve equation solved for `x²`
+    (a consequence of `teIsOnCurve` in a field, see `te_solve_field`) -/
+theorem teRT_compressed {K : Codec F} {canon : F → Prop} (hK : CodecOK K canon)
+    (hL : SignLaws F canon) (hS : SqrtOK K canon) (hO : LtOK K canon)
+    (E : TECfg F) (P : TEAff F) (hx : canon P.x) (hy : canon P.y)
+    (hden : E.a - (P.y * P.y) * E.d ≠ 0) (hsolve : P.x * P.x = teX2 E P.y) (vd : Validate)
+    (bs : List Nat) (hs : teSerialize K P .yes = .ok bs) (tl : List Nat) (u : Nat) :
+    teDeserialize K E .yes vd ⟨bs ++ tl, u⟩ =
+      if vd = .yes ∧ teCheck E P = false then .err .invalid ⟨tl, u + bs.length⟩
+      else .ok P ⟨tl, u + bs.length⟩ := by
+  rw [teDeserialize_eq]
+  unfold teSerialize at hs
+  simp only at hs
+  obtain ⟨x, y⟩ := P
+  obtain ⟨x1, x2, hg⟩ := teGetXs_some (K := K) hL hS E y x hden hx hsolve
+  obtain ⟨e2, l, e, c1, -, -⟩ := teGetXs_spec hL hS hO E y x1 x2 hg
+  subst e2
+  have hsel := sign_select hL hO x x1 hx c1 (by rw [e]; exact hsolve.symm) l
+  refine Eq.trans (M_bind_ok (a := (x, y)) (s' := ⟨tl, u + bs.length⟩) ?_) ?_
+  · simp only
+    rw [M_bind_ok (hK.rt_flags TEFlags teFlagsOK _ _ bs hy hs tl u)]
+    simp only [hg]
+    by_cases hle : K.le x (-x) = true
+    · rw [if_pos hle] at hsel
+      have hf : teFlagsFromX K x = .xIsPositive := by simp [teFlagsFromX, hle]
+      rw [hf]
+      simp only [TEFlags.isNegative, Bool.false_eq_true, if_false, hsel, M_pure_apply]
+      rfl
+    · rw [if_neg hle] at hsel
+      have hf : teFlagsFromX K x = .xIsNegative := by simp [teFlagsFromX, hle]
+      rw [hf]
+      simp only [TEFlags.isNegative, if_true, hsel, M_pure_apply]
+      rfl
+  simp only [teFinish]
+  cases vd with
+  | yes => cases hchk : teCheck E ⟨x, y⟩ <;> simp [throwE, M_pure_apply]
+  | no => simp [M_pure_apply]
+
+end points
+
+/-! ## The prime-field instantiation -/
+
+theorem Fp.ext' {p : Nat} {a b : Fp p} (h : a.val = b.val) : a = b := by
+  cases a; cases b; simp only at h; rw [h]
+
+theorem Fp.add_val {p : Nat} (a b : Fp p) : (a + b).val = (a.val + b.val) % p := rfl
+theorem Fp.mul_val {p : Nat} (a b : Fp p) : (a * b).val = (a.val * b.val) % p := rfl
+theorem Fp.neg_val {p : Nat} (a : Fp p) : (-a).val = (p - a.val % p) % p := rfl
+theorem Fp.zero_val {p : Nat} : (0 : Fp p).val = 0 := rfl
+
+theorem fpLtOK (c : FpCfg) : LtOK (fpCodec c) (fun x => x.val < c.p) where
+  asymm := by
+    intro a b h
+    have h' : decide (a.val < b.val) = true := h
+    show decide (b.val < a.val) = false
+    simp at h' ⊢; omega
+  total := by
+    intro a b _ _ h1 h2
+    have h1' : decide (a.val < b.val) = false := h1
+    have h2' : decide (b.val < a.val) = false := h2
+    simp at h1' h2'
+    exact Fp.ext' (by omega)
+
+theorem fpSignLaws {p : Nat} (hp : p.Prime) : SignLaws (Fp p) (fun x => x.val < p) where
+  canon_add := fun a b => Nat.mod_lt _ hp.pos
+  canon_mul := fun a b => Nat.mod_lt _ hp.pos
+  canon_neg := fun a => Nat.mod_lt _ hp.pos
+  neg_neg := by
+    intro a ha
+    apply Fp.ext'
+    simp only [Fp.neg_val]
+    have ha' : a.val < p := ha
+    rw [Nat.mod_eq_of_lt ha']
+    by_cases h0 : a.val = 0
+    · rw [h0]; simp
+    · rw [Nat.mod_eq_of_lt (by omega : p - a.val < p), Nat.mod_eq_of_lt (by omega : p - a.val < p)]
+      rw [Nat.mod_eq_of_lt (by omega)]; omega
+  neg_sq := by
+    intro a
+    apply Fp.ext'
+    simp only [Fp.mul_val, Fp.neg_val]
+    have hr : a.val % p < p := Nat.mod_lt _ hp.pos
+    rw [← Nat.mul_mod]
+    have h1 : (p - a.val % p) * (p - a.val % p) ≡ (a.val % p) * (a.val % p) [MOD p] := by
+      have hle : a.val % p ≤ p := hr.le
+      obtain ⟨k, hk⟩ := Nat.exists_eq_add_of_le hle
+      have hk' : p - a.val % p = k := by omega
+      rw [hk']
+      generalize a.val % p = r at *
+      -- k = p - r, k*k ≡ r*r
+      have : (k * k + 2 * p * r) = p * p + r * r := by subst hk; ring
+      have h2 : k * k + 2 * p * r ≡ r * r [MOD p] := by
+        rw [this]; unfold Nat.ModEq; rw [Nat.mul_add_mod]
+      have h3 : k * k + 2 * p * r ≡ k * k [MOD p] := by
+        have : 2 * p * r = p * (2 * r) := by ring
+        rw [this]; unfold Nat.ModEq; rw [Nat.add_mul_mod_self_left]
+      exact h3.symm.trans h2
+    rw [h1, ← Nat.mul_mod]
+  sq_eq := by
+    intro y y' hy hy' h
+    have hy1 : y.val < p := hy
+    have hy1' : y'.val < p := hy'
+    have hv : (y'.val * y'.val) % p = (y.val * y.val) % p := congrArg Fp.val h
+    have hdvd : (p : Int) ∣ ((y'.val : Int) - y.val) * ((y'.val : Int) + y.val) := by
+      have : ((y'.val : Int) - y.val) * ((y'.val : Int) + y.val) = (y'.val * y'.val : Nat) - (y.val * y.val : Nat) := by
+        push_cast; ring
+      rw [this]
+      exact Nat.modEq_iff_dvd.mp hv.symm
+    rcases Int.Prime.dvd_mul' hp hdvd with h1 | h1
+    · left
+      apply Fp.ext'
+      have := Int.eq_zero_of_abs_lt_dvd h1 (by rw [abs_lt]; constructor <;> omega)
+      omega
+    · right
+      apply Fp.ext'
+      rw [Fp.neg_val, Nat.mod_eq_of_lt hy1]
+      obtain ⟨k, hk⟩ := h1
+      have hk0 : 0 ≤ k := by
+        by_contra hneg
+        have : (p : Int) * k ≤ (p : Int) * (-1) := Int.mul_le_mul_of_nonneg_left (by omega) (by omega)
+        omega
+      have hk2 : k < 2 := by
+        by_contra hge
+        have : (p : Int) * 2 ≤ (p : Int) * k := Int.mul_le_mul_of_nonneg_left (by omega) (by omega)
+        omega
+      have : k = 0 ∨ k = 1 := by omega
+      rcases this with rfl | rfl
+      · have h1 : y'.val = 0 := by omega
+        have h2 : y.val = 0 := by omega
+        rw [h1, h2]; simp
+      · have : y'.val = p - y.val := by omega
+        rw [this]
+        by_cases h0 : y.val = 0
+        · omega
+        · rw [Nat.mod_eq_of_lt (by omega)]
+
+/-! ## A genuine field as coordinate field -/
+
+theorem fieldSignLaws (F : Type) [Field F] : SignLaws F (fun _ => True) where
+  canon_add := fun _ _ => trivial
+  canon_mul := fun _ _ => trivial
+  canon_neg := fun _ => trivial
+  neg_neg := fun a _ => neg_neg a
+  neg_sq := fun a => neg_mul_neg a a
+  sq_eq := by
+    intro y y' _ _ h
+    exact mul_self_eq_mul_self_iff.mp h
+
+/-- the twisted-Edwards equation solved for `x²` -/
+theorem te_solve_field {F : Type} [Field F] [DecidableEq F] (E : TECfg F) (P : TEAff F)
+    (hon : teIsOnCurve E P = true) (hden : E.a - (P.y * P.y) * E.d ≠ 0) :
+    P.x * P.x = teX2 E P.y := by
+  unfold teIsOnCurve at hon
+  simp only [beq_iff_eq] at hon
+  unfold teX2
+  rw [eq_comm, inv_mul_eq_iff_eq_mul₀ hden]
+  linear_combination (-1 : F) * hon
+
+/-- on a curve with `a ≠ d` the denominator never vanishes at a curve point -/
+theorem te_den_ne_zero {F : Type} [Field F] [DecidableEq F] (E : TECfg F) (P : TEAff F)
+    (hon : teIsOnCurve E P = true) (had : E.a ≠ E.d) : E.a - (P.y * P.y) * E.d ≠ 0 := by
+  unfold teIsOnCurve at hon
+  simp only [beq_iff_eq] at hon
+  intro h0
+  have h1 : P.y * P.y = 1 := by linear_combination hon - (P.x * P.x) * h0
+  rw [h1, one_mul] at h0
+  exact had (sub_eq_zero.mp h0)
+
+/-! ## Validity of accepted points over `Fp`, in terms of the spec-level group `Ark.AffPt` -/
+
+theorem Fp.add_zero_of_lt {p : Nat} (t : Fp p) (ht : t.val < p) : t + 0 = t := by
+  apply Fp.ext'; rw [Fp.add_val, Fp.zero_val, Nat.add_zero, Nat.mod_eq_of_lt ht]
+
+theorem Fp.mul_comm' {p : Nat} (a b : Fp p) : a * b = b * a := by
+  apply Fp.ext'; rw [Fp.mul_val, Fp.mul_val, Nat.mul_comm]
+
+theorem Fp.zero_mul' {p : Nat} (a : Fp p) : (0 : Fp p) * a = 0 := by
+  apply Fp.ext'; rw [Fp.mul_val, Fp.zero_val, Nat.zero_mul, Nat.zero_mod]
+
+theorem Fp.add_right_comm' {p : Nat} (a b d : Fp p) : a + b + d = a + d + b := by
+  apply Fp.ext'
+  simp only [Fp.add_val, Nat.mod_add_mod]
+  rw [Nat.add_right_comm]
+
+/-- the right-hand side computed by the Rust code is `x³ + a·x + b` -/
+theorem swRhs_fp {p : Nat} (hp : 0 < p) (E : SWCfg (Fp p)) (x : Fp p) :
+    swRhs E x = x * x * x + E.a * x + E.b := by
+  have ht : (x * x * x).val < p := Nat.mod_lt _ hp
+  unfold swRhs swAddB swMulByA
+  simp only
+  by_cases ha : E.a = 0
+  · rw [if_neg (by simp [ha]), ha, Fp.zero_mul', Fp.add_zero_of_lt _ ht]
+    by_cases hb : E.b = 0
+    · rw [if_pos hb, hb, Fp.add_zero_of_lt _ ht]
+    · rw [if_neg hb]
+  · rw [if_pos ha, if_neg ha, Fp.mul_comm' x E.a]
+    by_cases hb : E.b = 0
+    · rw [if_pos hb, hb, Fp.add_zero_of_lt (x * x * x + E.a * x) (Nat.mod_lt _ hp)]
+    · rw [if_neg hb, Fp.add_right_comm']
+
+theorem AffPt.smulAux_none {p : Nat} {E : SWParams p} (fuel k : Nat) :
+    AffPt.smulAux fuel k (⟨none⟩ : AffPt p E) ⟨none⟩ = ⟨none⟩ := by
+  induction fuel generalizing k with
+  | zero => rfl
+  | succ fuel ih =>
+    unfold AffPt.smulAux
+    split
+    · rfl
+    · have e : AffPt.affAdd (⟨none⟩ : AffPt p E) ⟨none⟩ = ⟨none⟩ := rfl
+      rw [e]
+      split <;> exact ih _
+
+theorem AffPt.smul_none {p : Nat} {E : SWParams p} (k : Nat) : AffPt.smul k (⟨none⟩ : AffPt p E) = 0 :=
+  AffPt.smulAux_none _ _
+
+/-- `Valid::check` of the default prime-field curve record, in terms of the spec-level group -/
+theorem swCheck_fp {p : Nat} (hp : 0 < p) (a b : Fp p) (h1 : Bool) (r : Nat) (P : SWAff (Fp p))
+    (hcof : h1 = true → ∀ Q : AffPt p ⟨a, b⟩, Q.onCurve = true → AffPt.smul r Q = 0)
+    (hc : swCheck (swCfgFp a b h1 r) P = true) :
+    AffPt.onCurve (P.toAffPt (E := ⟨a, b⟩)) = true ∧ AffPt.smul r (P.toAffPt (E := ⟨a, b⟩)) = 0 := by
+  unfold swCheck at hc
+  simp only [Bool.and_eq_true] at hc
+  obtain ⟨hon, hsub⟩ := hc
+  have honc : AffPt.onCurve (P.toAffPt (E := ⟨a, b⟩)) = true := by
+    obtain ⟨x, y, inf⟩ := P
+    cases inf with
+    | true => rfl
+    | false =>
+      have := (swIsOnCurve_iff _ ⟨x, y, false⟩ rfl).mp hon
+      rw [swRhs_fp hp] at this
+      simp only [SWAff.toAffPt, AffPt.onCurve, Bool.false_eq_true, if_false, beq_iff_eq]
+      exact this
+  refine ⟨honc, ?_⟩
+  cases h1 with
+  | true => exact hcof rfl _ honc
+  | false =>
+    have h2 : (AffPt.smul r (P.toAffPt (E := ⟨a, b⟩))).pt.isNone = true := hsub
+    cases hq : AffPt.smul r (P.toAffPt (E := ⟨a, b⟩)) with
+    | mk pt =>
+      rw [hq] at h2
+      cases pt with
+      | none => rfl
+      | some v => cases h2
+
+section points
+variable {F : Type} [Add F] [Sub F] [Mul F] [Neg F] [Zero F] [One F] [Inv F] [DecidableEq F]
+
+/-! ### The coordinates of an accepted point are canonical -/
+
+theorem swGetYs_canon {K : Codec F} {canon : F → Prop} (hneg : ∀ a : F, canon (-a))
+    (hsq : ∀ a y : F, K.sqrt a = some y → canon y) (E : SWCfg F) (x y1 y2 : F)
+    (h : swGetYsFromX K E x = some (y1, y2)) : canon y1 ∧ canon y2 := by
+  rw [swGetYsFromX_eq] at h
+  cases hs : K.sqrt (swRhs E x) with
+  | none => rw [hs] at h; cases h
+  | some y =>
+    rw [hs] at h
+    simp only at h
+    have hy := hsq _ _ hs
+    split at h <;> (simp only [Option.some.injEq, Prod.mk.injEq] at h; rw [← h.1, ← h.2])
+    · exact ⟨hy, hneg _⟩
+    · exact ⟨hneg _, hy⟩
+
+theorem teGetXs_canon {K : Codec F} {canon : F → Prop} (hneg : ∀ a : F, canon (-a))
+    (hsq : ∀ a y : F, K.sqrt a = some y → canon y) (E : TECfg F) (y x1 x2 : F)
+    (h : teGetXsFromY K E y = some (x1, x2)) : canon x1 ∧ canon x2 := by
+  rw [teGetXsFromY_eq] at h
+  split at h
+  · cases h
+  cases hs : K.sqrt (teX2 E y) with
+  | none => rw [hs] at h; cases h
+  | some x =>
+    rw [hs] at h
+    simp only at h
+    have hx := hsq _ _ hs
+    split at h <;> (simp only [Option.some.injEq, Prod.mk.injEq] at h; rw [← h.1, ← h.2])
+    · exact ⟨hx, hneg _⟩
+    · exact ⟨hneg _, hx⟩
+
+theorem swDe_canon {K : Codec F} {canon : F → Prop} (hK : CodecOK K canon) (h0 : canon 0)
+    (hneg : ∀ a : F, canon (-a)) (hsq : ∀ a y : F, K.sqrt a = some y → canon y)
+    {E : SWCfg F} {cm : Compress} {vd : Validate} {s s' : Rd} {P : SWAff F}
+    (h : swDeserialize K E cm vd s = .ok P s') : canon P.x ∧ canon P.y := by
+  rw [swDeserialize_eq] at h
+  obtain ⟨q, s1, h1, h2⟩ := M_bind_ok_inv h
+  have hq : canon q.1 ∧ canon q.2.1 := by
+    cases cm with
+    | yes =>
+      simp only at h1
+      obtain ⟨⟨x, fl⟩, s2, h3, h4⟩ := M_bind_ok_inv h1
+      have hx := hK.deFlags_canon _ _ _ _ _ h3
+      cases fl with
+      | pointAtInfinity => cases h4; exact ⟨h0, h0⟩
+      | yIsPositive =>
+        simp only [SWFlags.isPositive] at h4
+        cases hg : swGetYsFromX K E x with
+        | none => rw [hg] at h4; cases h4
+        | some yy =>
+          obtain ⟨y1, y2⟩ := yy
+          rw [hg] at h4
+          cases h4
+          exact ⟨hx, (swGetYs_canon hneg hsq E x y1 y2 hg).1⟩
+      | yIsNegative =>
+        simp only [SWFlags.isPositive] at h4
+        cases hg : swGetYsFromX K E x with
+        | none => rw [hg] at h4; cases h4
+        | some yy =>
+          obtain ⟨y1, y2⟩ := yy
+          rw [hg] at h4
+          cases h4
+          exact ⟨hx, (swGetYs_canon hneg hsq E x y1 y2 hg).2⟩
+    | no =>
+      simp only at h1
+      obtain ⟨x, s2, h3, h4⟩ := M_bind_ok_inv h1
+      obtain ⟨⟨y, fl⟩, s3, h5, h6⟩ := M_bind_ok_inv h4
+      cases h6
+      exact ⟨hK.de_canon _ _ _ _ _ h3, hK.deFlags_canon _ _ _ _ _ h5⟩
+  rcases swFinish_ok_inv h2 with ⟨-, rfl⟩ | ⟨-, rfl, -⟩
+  · exact ⟨h0, h0⟩
+  · exact hq
+
+theorem teDe_canon {K : Codec F} {canon : F → Prop} (hK : CodecOK K canon)
+    (hneg : ∀ a : F, canon (-a)) (hsq : ∀ a y : F, K.sqrt a = some y → canon y)
+    {E : TECfg F} {cm : Compress} {vd : Validate} {s s' : Rd} {P : TEAff F}
+    (h : teDeserialize K E cm vd s = .ok P s') : canon P.x ∧ canon P.y := by
+  rw [teDeserialize_eq] at h
+  obtain ⟨q, s1, h1, h2⟩ := M_bind_ok_inv h
+  have hq : canon q.1 ∧ canon q.2 := by
+    cases cm with
+    | yes =>
+      simp only at h1
+      obtain ⟨⟨y, fl⟩, s2, h3, h4⟩ := M_bind_ok_inv h1
+      have hy := hK.deFlags_canon _ _ _ _ _ h3
+      simp only at h4
+      cases hg : teGetXsFromY K E y with
+      | none => rw [hg] at h4; cases h4
+      | some xx =>
+        obtain ⟨x1, x2⟩ := xx
+        rw [hg] at h4
+        simp only at h4
+        obtain ⟨c1, c2⟩ := teGetXs_canon hneg hsq E y x1 x2 hg
+        split at h4 <;> (cases h4)
+        · exact ⟨c2, hy⟩
+        · exact ⟨c1, hy⟩
+    | no =>
+      simp only at h1
+      obtain ⟨x, s2, h3, h4⟩ := M_bind_ok_inv h1
+      obtain ⟨y, s3, h5, h6⟩ := M_bind_ok_inv h4
+      cases h6
+      exact ⟨hK.de_canon _ _ _ _ _ h3, hK.de_canon _ _ _ _ _ h5⟩
+  obtain ⟨rfl, -⟩ := teFinish_ok_inv h2
+  exact hq
+
+end points
+
+/-! ### `fpSqrt` returns reduced values -/
+
+theorem powModAux_lt (m : Nat) : ∀ (fuel b e acc : Nat), acc < m → Spec.powModAux m fuel b e acc < m := by
+  intro fuel
+  induction fuel with
+  | zero => intro b e acc h; exact h
+  | succ fuel ih =>
+    intro b e acc h
+    unfold Spec.powModAux
+    split
+    · exact h
+    · apply ih
+      split
+      · exact Nat.mod_lt _ (by omega)
+      · exact h
+
+theorem powMod_lt (b e m : Nat) (hm : 0 < m) : Spec.powMod b e m < m :=
+  powModAux_lt m _ _ _ _ (Nat.mod_lt _ hm)
+
+theorem tsLoop_lt (p : Nat) (hp : 0 < p) : ∀ (fuel x t c m : Nat), x < p → tsLoop p fuel x t c m < p := by
+  intro fuel
+  induction fuel with
+  | zero => intro x t c m h; exact h
+  | succ fuel ih =>
+    intro x t c m h
+    unfold tsLoop
+    split
+    · exact h
+    · exact ih _ _ _ _ (Nat.mod_lt _ hp)
+
+theorem fpSqrt_lt {p : Nat} (hp : 0 < p) (a y : Fp p) (h : fpSqrt p a = some y) : y.val < p := by
+  unfold fpSqrt at h
+  simp only at h
+  split at h
+  · cases h; exact hp
+  · split at h
+    · cases h; exact Nat.mod_lt _ hp
+    · split at h
+      · cases h
+      · split at h
+        · cases h; exact powMod_lt _ _ _ hp
+        · cases h; exact tsLoop_lt p hp _ _ _ _ _ (powMod_lt _ _ _ hp)
+
+/-! ## The quadratic-extension dictionary `fp2Codec` -/
+
+/-- `Reads.bind0` when the continuation is only known to behave on the values `m` can return -/
+theorem Reads.bind0_of {α β : Type} {m : M α} {f : α → M β} {k : Nat} (Q : α → Prop) (hm : Reads m k)
+    (hQ : ∀ s a s', m s = .ok a s' → Q a) (hf : ∀ a, Q a → Reads (f a) 0) : Reads (m >>= f) k where
+  no_panic := by
+    intro s hp
+    rw [M_bind_apply] at hp
+    cases h1 : m s with
+    | ok a s1 => rw [h1] at hp; exact (hf a (hQ _ _ _ h1)).no_panic s1 hp
+    | err e s1 => rw [h1] at hp; cases hp
+    | panic => exact hm.no_panic s h1
+  ok_used := by
+    intro s b s' hp
+    rw [M_bind_apply] at hp
+    cases h1 : m s with
+    | ok a s1 =>
+      rw [h1] at hp
+      obtain ⟨h2, rfl⟩ := hm.ok_used s a s1 h1
+      obtain ⟨h3, rfl⟩ := (hf a (hQ _ _ _ h1)).ok_used _ b s' hp
+      exact ⟨h2, by simp⟩
+    | err e s1 => rw [h1] at hp; cases hp
+    | panic => rw [h1] at hp; cases hp
+  err_used := by
+    intro s e s' hp
+    rw [M_bind_apply] at hp
+    cases h1 : m s with
+    | ok a s1 =>
+      rw [h1] at hp
+      obtain ⟨h2, rfl⟩ := hm.ok_used s a s1 h1
+      obtain ⟨h3, h4, h5⟩ := (hf a (hQ _ _ _ h1)).err_used _ e s' hp
+      simp only [List.length_drop] at h3 h4 h5
+      exact ⟨by omega, by omega, by omega⟩
+    | err e1 s1 =>
+      rw [h1] at hp; cases hp
+      exact hm.err_used s e s' h1
+    | panic => rw [h1] at hp; cases hp
+
+/-- what a tower deserialiser returns is an element of that tower with reduced coefficients -/
+theorem extDe_shape {c : FpCfg} (h : WFc c) (t : Tower) :
+    (∀ (Fl : Type) [Flags Fl] (s s' : Rd) (v : ExtV c.p) (fl : Fl),
+      extDeFlags c Fl t s = .ok (v, fl) s' → v.hasShape t ∧ v.reduced) ∧
+    (∀ (cm : Compress) (vd : Validate) (s s' : Rd) (v : ExtV c.p),
+      extDe c t cm vd s = .ok v s' → v.hasShape t ∧ v.reduced) := by
+  induction t with
+  | base =>
+    constructor
+    · intro Fl _ s s' v fl hd
+      simp only [extDeFlags] at hd
+      obtain ⟨⟨x, fl'⟩, s1, h1, h2⟩ := M_bind_ok_inv hd
+      cases h2
+      exact ⟨trivial, fpDe_ok_lt h h1⟩
+    · intro cm vd s s' v hd
+      simp only [extDe] at hd
+      obtain ⟨x, s1, h1, h2⟩ := M_bind_ok_inv hd
+      cases h2
+      unfold fpDe at h1
+      obtain ⟨⟨x', fl⟩, s2, h3, h4⟩ := M_bind_ok_inv h1
+      cases h4
+      exact ⟨trivial, fpDe_ok_lt h h3⟩
+  | quad t ih =>
+    obtain ⟨ih1, ih2⟩ := ih
+    constructor
+    · intro Fl _ s s' v fl hd
+      simp only [extDeFlags] at hd
+      obtain ⟨c0, s1, h1, hd⟩ := M_bind_ok_inv hd
+      obtain ⟨⟨c1, fl'⟩, s2, h2, hd⟩ := M_bind_ok_inv hd
+      cases hd
+      obtain ⟨a1, a2⟩ := ih2 _ _ _ _ _ h1
+      obtain ⟨b1, b2⟩ := ih1 Fl _ _ _ _ h2
+      exact ⟨⟨a1, b1⟩, ⟨a2, b2⟩⟩
+    · intro cm vd s s' v hd
+      simp only [extDe] at hd
+      obtain ⟨c0, s1, h1, hd⟩ := M_bind_ok_inv hd
+      obtain ⟨c1, s2, h2, hd⟩ := M_bind_ok_inv hd
+      cases hd
+      obtain ⟨a1, a2⟩ := ih2 _ _ _ _ _ h1
+      obtain ⟨b1, b2⟩ := ih2 _ _ _ _ _ h2
+      exact ⟨⟨a1, b1⟩, ⟨a2, b2⟩⟩
+  | cubic t ih =>
+    obtain ⟨ih1, ih2⟩ := ih
+    constructor
+    · intro Fl _ s s' v fl hd
+      simp only [extDeFlags] at hd
+      obtain ⟨c0, s1, h1, hd⟩ := M_bind_ok_inv hd
+      obtain ⟨c1, s2, h2, hd⟩ := M_bind_ok_inv hd
+      obtain ⟨⟨c2, fl'⟩, s3, h3, hd⟩ := M_bind_ok_inv hd
+      cases hd
+      obtain ⟨a1, a2⟩ := ih2 _ _ _ _ _ h1
+      obtain ⟨b1, b2⟩ := ih2 _ _ _ _ _ h2
+      obtain ⟨d1, d2⟩ := ih1 Fl _ _ _ _ h3
+      exact ⟨⟨a1, b1, d1⟩, ⟨a2, b2, d2⟩⟩
+    · intro cm vd s s' v hd
+      simp only [extDe] at hd
+      obtain ⟨c0, s1, h1, hd⟩ := M_bind_ok_inv hd
+      obtain ⟨c1, s2, h2, hd⟩ := M_bind_ok_inv hd
+      obtain ⟨c2, s3, h3, hd⟩ := M_bind_ok_inv hd
+      cases hd
+      obtain ⟨a1, a2⟩ := ih2 _ _ _ _ _ h1
+      obtain ⟨b1, b2⟩ := ih2 _ _ _ _ _ h2
+      obtain ⟨d1, d2⟩ := ih2 _ _ _ _ _ h3
+      exact ⟨⟨a1, b1, d1⟩, ⟨a2, b2, d2⟩⟩
+
+/-- the shape test after a degree-2 read never fails -/
+theorem quadBase_cases {p : Nat} (v : ExtV p) (hv : v.hasShape (.quad .base)) :
+    ∃ a b, v = .quad (.base a) (.base b) := by
+  cases v with
+  | base x => simp [ExtV.hasShape] at hv
+  | cubic a b d => simp [ExtV.hasShape] at hv
+  | quad a b =>
+    simp only [ExtV.hasShape] at hv
+    obtain ⟨ha, hb⟩ := hv
+    cases a <;> simp only [ExtV.hasShape] at ha
+    cases b <;> simp only [ExtV.hasShape] at hb
+    exact ⟨_, _, rfl⟩
+
+theorem hasShape_quadBase {p : Nat} (a b : Fp p) : (ExtV.quad (.base a) (.base b)).hasShape (.quad .base) :=
+  ⟨trivial, trivial⟩
+
+theorem fp2CodecOK {c : FpCfg} (h : WFc c) (β : Nat) :
+    CodecOK (fp2Codec c β) (fun x => x.c0.val < c.p ∧ x.c1.val < c.p) where
+  ser_size := by
+    intro Fl _ x fl bs hs
+    exact extSer_size h (.quad .base) Fl _ fl bs (hasShape_quadBase x.c0 x.c1) hs
+  deFlags_reads := by
+    intro Fl _
+    refine Reads.bind0_of (fun q => q.1.hasShape (.quad .base)) (extDeFlags_reads h Fl (.quad .base)) ?_ ?_
+    · rintro s ⟨v, fl⟩ s' hd
+      exact ((extDe_shape h _).1 Fl _ _ _ _ hd).1
+    · rintro ⟨v, fl⟩ hv
+      obtain ⟨a, b, rfl⟩ := quadBase_cases v hv
+      exact Reads.pure _
+  de_reads := by
+    intro cm vd
+    refine Reads.bind0_of (fun v => v.hasShape (.quad .base)) (extDe_reads h (.quad .base) cm vd) ?_ ?_
+    · intro s v s' hd
+      exact ((extDe_shape h _).2 _ _ _ _ _ hd).1
+    · intro v hv
+      obtain ⟨a, b, rfl⟩ := quadBase_cases v hv
+      exact Reads.pure _
+  deFlags_canon := by
+    intro Fl _ s s' x fl hd
+    obtain ⟨⟨v, fl'⟩, s1, h1, h2⟩ := M_bind_ok_inv hd
+    obtain ⟨hv, hr⟩ := (extDe_shape h _).1 Fl _ _ _ _ h1
+    obtain ⟨a, b, rfl⟩ := quadBase_cases v hv
+    cases h2
+    exact hr
+  de_canon := by
+    intro cm vd s s' x hd
+    obtain ⟨v, s1, h1, h2⟩ := M_bind_ok_inv hd
+    obtain ⟨hv, hr⟩ := (extDe_shape h _).2 _ _ _ _ _ h1
+    obtain ⟨a, b, rfl⟩ := quadBase_cases v hv
+    cases h2
+    exact hr
+  rt_flags := by
+    intro Fl _ hF x fl bs hx hs tl u
+    have := (extRT h (.quad .base)).1 Fl hF _ fl bs (hasShape_quadBase x.c0 x.c1) hx hs tl u
+    show (extDeFlags c Fl (.quad .base) >>= _) _ = _
+    rw [M_bind_ok this]
+    rfl
+  rt_plain := by
+    intro x bs cm vd hx hs tl u
+    have := (extRT h (.quad .base)).2 _ bs cm vd (hasShape_quadBase x.c0 x.c1) hx hs tl u
+    show (extDe c (.quad .base) cm vd >>= _) _ = _
+    rw [M_bind_ok this]
+    rfl
+
+/-! ## Decidable equality of outcomes (for closed examples), in-range accessors, small instances -/
+
+deriving instance DecidableEq for Ark.Bytes.Res
+deriving instance DecidableEq for Ark.Bytes.Rd
+deriving instance DecidableEq for Ark.Bytes.R
+
+/-- `SerBuffer` indexing never panics for an index `≤ 8N` -/
+theorem SerBuf.get_in_range (N : Nat) (b : SerBuf) (i : Nat) (hb : b.buffers.length = N)
+    (hl : ∀ l ∈ b.buffers, l.length = 8) (hi : i ≤ 8 * N) : ∃ v, SerBuf.get N b i = .ok v := by
+  unfold SerBuf.get
+  by_cases h8 : i = 8 * N
+  · rw [if_pos h8]; exact ⟨_, rfl⟩
+  · rw [if_neg h8]
+    have h1 : i / 8 < b.buffers.length := by omega
+    rw [List.getElem?_eq_getElem h1]
+    have h2 : b.buffers[i / 8].length = 8 := hl _ (List.getElem_mem _)
+    have h3 : i % 8 < b.buffers[i / 8].length := by omega
+    simp only [List.getElem?_eq_getElem h3]
+    exact ⟨_, rfl⟩
+
+theorem SerBuf.set_in_range (N : Nat) (b : SerBuf) (i v : Nat) (hb : b.buffers.length = N)
+    (hi : i ≤ 8 * N) : ∃ b', SerBuf.set N b i v = .ok b' := by
+  unfold SerBuf.set
+  by_cases h8 : i = 8 * N
+  · rw [if_pos h8]; exact ⟨_, rfl⟩
+  · rw [if_neg h8]
+    have h1 : i / 8 < b.buffers.length := by omega
+    rw [List.getElem?_eq_getElem h1]
+    exact ⟨_, rfl⟩
+
+/-- `flags.is_positive().unwrap()` is only reached for a flag that is not the infinity flag -/
+theorem SWFlags.isPositive_ne_none (fl : SWFlags) (h : fl ≠ .pointAtInfinity) : fl.isPositive ≠ none := by
+  cases fl <;> simp [SWFlags.isPositive] at h ⊢
+
+/-- `fpSqrt` on `F_13` -/
+theorem fpSqrtOK_13 : SqrtOK (fpCodec ⟨13, 1⟩) (fun x => x.val < 13) where
+  sound := by
+    intro a y ha hs
+    obtain ⟨n⟩ := a
+    have key : ∀ n, n < 13 → ∀ y ∈ fpSqrt 13 (⟨n⟩ : Fp 13), y.val < 13 ∧ y * y = (⟨n⟩ : Fp 13) := by
+      decide +kernel
+    exact key n ha y hs
+  complete := by
+    intro a y ha hy hyy
+    obtain ⟨n⟩ := a
+    obtain ⟨m⟩ := y
+    have key : ∀ n, n < 13 → ∀ m, m < 13 → ((⟨m⟩ : Fp 13) * ⟨m⟩ = ⟨n⟩) →
+        (fpSqrt 13 (⟨n⟩ : Fp 13)).isSome = true := by decide +kernel
+    have := key n ha m hy hyy
+    exact Option.isSome_iff_exists.mp this
+
+theorem wfc_13 : WFc ⟨13, 1⟩ := ⟨by decide, by decide, by decide⟩
+
+/-- a 63-bit prime modulus: two flag bits spill into a ninth byte -/
+theorem wfc_63 : WFc ⟨2 ^ 63 - 25, 1⟩ := ⟨by decide, by decide, by decide⟩
+
+section field
+variable {F : Type} [Field F] [DecidableEq F]
+
+/-- in a field `into_affine` is the normalisation `(X/Z², Y/Z³)` -/
+theorem swToAffine_field (P : SWProj F) : swToAffine P = .ok (swNormalize P) := by
+  unfold swToAffine swNormalize
+  by_cases hz : P.isZero = true
+  · rw [if_pos hz, if_pos hz]
+  · rw [if_neg hz, if_neg hz]
+    by_cases h1 : P.z = 1
+    · rw [if_pos h1, h1]; simp
+    · rw [if_neg h1]
+      have : P.z ≠ 0 := by
+        intro h0; apply hz; unfold SWProj.isZero; rw [h0]; simp
+      unfold inverse
+      rw [if_neg this]
+      simp only [mul_assoc]
+
+/-- in a field `into_affine` is the normalisation `(X/Z, Y/Z)` (for `Z ≠ 0`) -/
+theorem teToAffine_field (P : TEProj F) (hz : P.z ≠ 0) : teToAffine P = .ok (teNormalize P) := by
+  unfold teToAffine teNormalize
+  by_cases hzero : P.isZero = true
+  · rw [if_pos hzero, if_pos hzero]
+  · rw [if_neg hzero, if_neg hzero]
+    by_cases h1 : P.z = 1
+    · rw [if_pos h1, h1]; simp
+    · rw [if_neg h1]
+      unfold inverse
+      rw [if_neg hz]
+      simp only [if_neg hz]
+
+end field
 
 end Ark.Bytes
